@@ -1,1 +1,2180 @@
-//! Helpers of group 'storage' (see GUIDE.md).
+//! Helpers of group 'storage' (C03, C12, C13).
+//!
+//! * `val`   — generated value ASTs for every reachable `SyntaxType`, translation to kanidm values
+//!             through public constructors, deep (field-by-field) comparison and behaviour probes (C12);
+//! * `idx`   — from-scratch reference index / name tables and the comparison with the raw tables (C03);
+//! * `bak`   — backup / restore helpers (C12, C13).
+pub mod val {
+    use kanidm_lib_crypto::CryptoPolicy;
+    use kanidm_proto::internal::{Filter as ProtoFilter, ImageType, ImageValue, UiHint};
+    use kanidmd_lib::credential::apppwd::ApplicationPassword;
+    use kanidmd_lib::credential::totp::{Totp, TotpAlgo, TotpDigits};
+    use kanidmd_lib::credential::{Credential, Password};
+    use kanidmd_lib::prelude::*;
+    use kanidmd_lib::value::{
+        Address, ApiToken, ApiTokenScope, AuthType, CredUpdateSessionPerms, CredentialType, IndexType, IntentTokenState, KeyStatus, KeyUsage,
+        Oauth2Session, OauthClaimMapJoin, Session, SessionExtMetadata, SessionScope, SessionState, SyntaxType,
+    };
+    use kanidmd_lib::valueset::{self, ValueSet};
+    use kanidmd_lib::verif_hooks::{ident, storage as hk};
+    use proptest::prelude::*;
+    use serde::{Deserialize, Serialize};
+    use std::collections::{BTreeMap, BTreeSet};
+    use time::OffsetDateTime;
+
+    // -----------------------------------------------------------------------------------------
+    // corpora
+
+    /// Imported password hashes with their cleartext (one per supported import format).
+    pub const IMPORTS: &[(&str, &str, &str)] = &[
+        ("django-pbkdf2-sha256", "pbkdf2_sha256$36000$xIEozuZVAoYm$uW1b35DUKyhvQAf1mBqMvoBDcqSD06juzyO/nmyV0+w=", "eicieY7ahchaoCh0eeTa"),
+        ("ds-sha1", "{SHA}W6ph5Mm5Pz8GgiULbPgzG37mj9g=", "password"),
+        ("ds-ssha1", "{SSHA}EyzbBiP4u4zxOrLpKTORI/RX3HC6TCTJtnVOCQ==", "password"),
+        ("ds-sha256", "{SHA256}XohImNooBHFR0OVvjcYpJ3NgPQ1qq73WKhHvch0VQtg=", "password"),
+        ("ds-ssha256", "{SSHA256}luYWfFJOZgxySTsJXHgIaCYww4yMpu6yest69j/wO5n5OycuHFV/GQ==", "password"),
+        ("ds-sha512", "{SHA512}sQnzu7wkTrgkQZF+0G1hi5AI3Qmzvv0bXgc5THBqi7mAsdd4Xll27ASbRt9fEyavWi6m0QP9B8lThf+rDKy8hg==", "password"),
+        ("ds-ssha512", "{SSHA512}JwrSUHkI7FTAfHRVR6KoFlSN0E3dmaQWARjZ+/UsShYlENOqDtFVU77HJLLrY2MuSp0jve52+pwtdVl2QUAHukQ0XUf5LDtM", "password"),
+        ("openldap-pbkdf2", "{PBKDF2}10000$IlfapjA351LuDSwYC0IQ8Q$saHqQTuYnjJN/tmAndT.8mJt.6w", "password"),
+        ("openldap-pbkdf2-sha1", "{PBKDF2-SHA1}10000$ZBEH6B07rgQpJSikyvMU2w$TAA03a5IYkz1QlPsbJKvUsTqNV", "password"),
+        ("openldap-pbkdf2-sha256", "{PBKDF2-SHA256}10000$henZGfPWw79Cs8ORDeVNrQ$1dTJy73v6n3bnTmTZFghxHXHLsAzKaAy8SksDfZBPIw", "password"),
+        (
+            "openldap-pbkdf2-sha512",
+            "{PBKDF2-SHA512}10000$Je1Uw19Bfv5lArzZ6V3EPw$g4T/1sqBUYWl9o93MVnyQ/8zKGSkPbKaXXsT8WmysXQJhWy8MRP2JFudSL.N9RklQYgDPxPjnfum/F2f/TrppA",
+            "password",
+        ),
+        ("openldap-argon2", "{ARGON2}$argon2id$v=19$m=65536,t=2,p=1$IyTQMsvzB2JHDiWx8fq7Ew$VhYOA7AL0kbRXI5g2kOyyp8St1epkNj7WZyUY4pAIQQ", "password"),
+        ("ipa-nthash", "ipaNTHash: iEb36u6PsRetBr3YMLdYbA", "password"),
+        ("samba-nthash", "sambaNTPassword: 8846F7EAEE8FB117AD06BDD830B7586C", "password"),
+        ("crypt-md5", "{crypt}$1$zaRIAsoe$7887GzjDTrst0XbDPpF5m.", "password"),
+        ("crypt-sha256", "{crypt}$5$3UzV7Sut8EHCUxlN$41V.jtMQmFAOucqI4ImFV43r.bRLjPlN.hyfoCdmGE2", "password"),
+        (
+            "crypt-sha512",
+            "{crypt}$6$aXn8azL8DXUyuMvj$9aJJC/KEUwygIpf2MTqjQa.f0MEXNg2cGFc62Fet8XpuDVDedM05CweAlxW6GWxnmHqp14CRf6zU7OQoE/bCu0",
+            "password",
+        ),
+    ];
+
+    pub const SSH_KEYS: &[&str] = &[
+        "ssh-ed25519 AAAAC3NzaC1lZDI1NTE5AAAAIAeGW1P6Pc2rPq0XqbRaDKBcXZUPRklo0L1EyR30CwoP william@amethyst",
+        concat!(
+            "ecdsa-sha2-nistp521 AAAAE2VjZHNhLXNoYTItbmlzdHA1MjEAAAAIbmlzdHA1MjEAAACFBAGyIY7o3B",
+            "tOzRiJ9vvjj96bRImwmyy5GvFSIUPlK00HitiAWGhiO1jGZKmK7220Oe4rqU3uAwA00a0758UODs+0OQHLMDRtl81l",
+            "zPrVSdrYEDldxH9+a86dBZhdm0e15+ODDts2LHUknsJCRRldO4o9R9VrohlF7cbyBlnhJQrR4S+Oag== william@a",
+            "methyst"
+        ),
+        concat!(
+            "ssh-rsa AAAAB3NzaC1yc2EAAAADAQABAAABAQDTcXpclurQpyOHZBM/cDY9EvInSYkYSGe51by/wJP0Njgi",
+            "GZUJ3HTaPqoGWux0PKd7KJki+onLYt4IwDV1RhV/GtMML2U9v94+pA8RIK4khCxvpUxlM7Kt/svjOzzzqiZfKdV37/",
+            "OUXmM7bwVGOvm3EerDOwmO/QdzNGfkca12aWLoz97YrleXnCoAzr3IN7j3rwmfJGDyuUtGTdmyS/QWhK9FPr8Ic3eM",
+            "QK1JSAQqVfGhA8lLbJHmnQ/b/KMl2lzzp7SXej0wPUfvI/IP3NGb8irLzq8+JssAzXGJ+HMql+mNHiSuPaktbFzZ6y",
+            "ikMR6Rx/psU07nAkxKZDEYpNVv"
+        ),
+    ];
+
+    /// Self-signed test server certificate (kanidm's own test vector) and two attestation roots.
+    pub const CERTS: &[&str] = &[
+        "-----BEGIN CERTIFICATE-----
+MIICeDCCAh6gAwIBAgIBAjAKBggqhkjOPQQDAjCBhDELMAkGA1UEBhMCQVUxDDAK
+BgNVBAgMA1FMRDEPMA0GA1UECgwGS2FuaWRtMRwwGgYDVQQDDBNLYW5pZG0gR2Vu
+ZXJhdGVkIENBMTgwNgYDVQQLDC9EZXZlbG9wbWVudCBhbmQgRXZhbHVhdGlvbiAt
+IE5PVCBGT1IgUFJPRFVDVElPTjAeFw0yNTA3MjkwMzMxMDNaFw0yNTA4MDMwMzMx
+MDNaMHoxCzAJBgNVBAYTAkFVMQwwCgYDVQQIDANRTEQxDzANBgNVBAoMBkthbmlk
+bTESMBAGA1UEAwwJbG9jYWxob3N0MTgwNgYDVQQLDC9EZXZlbG9wbWVudCBhbmQg
+RXZhbHVhdGlvbiAtIE5PVCBGT1IgUFJPRFVDVElPTjBZMBMGByqGSM49AgEGCCqG
+SM49AwEHA0IABPFkpVzFH+feItm9JFFm/noge+BlZLpdGWOuSUvfoivAzCgPr7Kr
+nGd8kUzIyJermePzu2SVQLaEt/7GY8Ha+2ujgYkwgYYwCQYDVR0TBAIwADAOBgNV
+HQ8BAf8EBAMCBaAwEwYDVR0lBAwwCgYIKwYBBQUHAwEwHQYDVR0OBBYEFOjucEtX
+mj/wQ7npVaMOyDtLU6dUMB8GA1UdIwQYMBaAFNo5o+5ea0sNMlW/75VgGJCv2AcJ
+MBQGA1UdEQQNMAuCCWxvY2FsaG9zdDAKBggqhkjOPQQDAgNIADBFAiEA1TACf4eS
+g07LRiKhlMgA+6xxztxiZCuV6LakRp7FZdECIFp0rFSiFJdkLEO9IyqYc+zPW770
+ta41VMU3u9UQfHxF
+-----END CERTIFICATE-----
+",
+        "-----BEGIN CERTIFICATE-----
+MIIDHjCCAgagAwIBAgIEG0BT9zANBgkqhkiG9w0BAQsFADAuMSwwKgYDVQQDEyNZ
+dWJpY28gVTJGIFJvb3QgQ0EgU2VyaWFsIDQ1NzIwMDYzMTAgFw0xNDA4MDEwMDAw
+MDBaGA8yMDUwMDkwNDAwMDAwMFowLjEsMCoGA1UEAxMjWXViaWNvIFUyRiBSb290
+IENBIFNlcmlhbCA0NTcyMDA2MzEwggEiMA0GCSqGSIb3DQEBAQUAA4IBDwAwggEK
+AoIBAQC/jwYuhBVlqaiYWEMsrWFisgJ+PtM91eSrpI4TK7U53mwCIawSDHy8vUmk
+5N2KAj9abvT9NP5SMS1hQi3usxoYGonXQgfO6ZXyUA9a+KAkqdFnBnlyugSeCOep
+8EdZFfsaRFtMjkwz5Gcz2Py4vIYvCdMHPtwaz0bVuzneueIEz6TnQjE63Rdt2zbw
+nebwTG5ZybeWSwbzy+BJ34ZHcUhPAY89yJQXuE0IzMZFcEBbPNRbWECRKgjq//qT
+9nmDOFVlSRCt2wiqPSzluwn+v+suQEBsUjTGMEd25tKXXTkNW21wIWbxeSyUoTXw
+LvGS6xlwQSgNpk2qXYwf8iXg7VWZAgMBAAGjQjBAMB0GA1UdDgQWBBQgIvz0bNGJ
+hjgpToksyKpP9xv9oDAPBgNVHRMECDAGAQH/AgEAMA4GA1UdDwEB/wQEAwIBBjAN
+BgkqhkiG9w0BAQsFAAOCAQEAjvjuOMDSa+JXFCLyBKsycXtBVZsJ4Ue3LbaEsPY4
+MYN/hIQ5ZM5p7EjfcnMG4CtYkNsfNHc0AhBLdq45rnT87q/6O3vUEtNMafbhU6kt
+hX7Y+9XFN9NpmYxr+ekVY5xOxi8h9JDIgoMP4VB1uS0aunL1IGqrNooL9mmFnL2k
+LVVee6/VR6C5+KSTCMCWppMuJIZII2v9o4dkoZ8Y7QRjQlLfYzd3qGtKbw7xaF1U
+sG/5xUb/Btwb2X2g4InpiB/yt/3CpQXpiWX/K4mBvUKiGn05ZsqeY1gx4g0xLBqc
+U9psmyPzK+Vsgw2jeRQ5JlKDyqE0hebfC1tvFu0CCrJFcw==
+-----END CERTIFICATE-----
+",
+        "-----BEGIN CERTIFICATE-----
+MIICEjCCAZmgAwIBAgIQaB0BbHo84wIlpQGUKEdXcTAKBggqhkjOPQQDAzBLMR8w
+HQYDVQQDDBZBcHBsZSBXZWJBdXRobiBSb290IENBMRMwEQYDVQQKDApBcHBsZSBJ
+bmMuMRMwEQYDVQQIDApDYWxpZm9ybmlhMB4XDTIwMDMxODE4MjEzMloXDTQ1MDMx
+NTAwMDAwMFowSzEfMB0GA1UEAwwWQXBwbGUgV2ViQXV0aG4gUm9vdCBDQTETMBEG
+A1UECgwKQXBwbGUgSW5jLjETMBEGA1UECAwKQ2FsaWZvcm5pYTB2MBAGByqGSM49
+AgEGBSuBBAAiA2IABCJCQ2pTVhzjl4Wo6IhHtMSAzO2cv+H9DQKev3//fG59G11k
+xu9eI0/7o6V5uShBpe1u6l6mS19S1FEh6yGljnZAJ+2GNP1mi/YK2kSXIuTHjxA/
+pcoRf7XkOtO4o1qlcaNCMEAwDwYDVR0TAQH/BAUwAwEB/zAdBgNVHQ4EFgQUJtdk
+2cV4wlpn0afeaxLQG2PxxtcwDgYDVR0PAQH/BAQDAgEGMAoGCCqGSM49BAMDA2cA
+MGQCMFrZ+9DsJ1PW9hfNdBywZDsWDbWFp28it1d/5w2RPkRX3Bbn/UbDTNLx7Jr3
+jAGGiQIwHFj+dJZYUJR786osByBelJYsVZd2GbHQu209b5RCmGQ21gpSAk9QZW4B
+1bWeT0vT
+-----END CERTIFICATE-----
+",
+    ];
+
+    const IMG_DIR: &str = concat!(env!("CARGO_MANIFEST_DIR"), "/../../../repo/server/lib/src/valueset/image/test_images/");
+    /// kanidm's own "ok" test images: (file name, type, bytes).
+    pub fn images() -> Vec<(&'static str, ImageType, &'static [u8])> {
+        vec![
+            ("ok.png", ImageType::Png, include_bytes!(concat!(env!("CARGO_MANIFEST_DIR"), "/../../../repo/server/lib/src/valueset/image/test_images/ok.png")).as_slice()),
+            ("ok.jpg", ImageType::Jpg, include_bytes!(concat!(env!("CARGO_MANIFEST_DIR"), "/../../../repo/server/lib/src/valueset/image/test_images/ok.jpg")).as_slice()),
+            ("ok.gif", ImageType::Gif, include_bytes!(concat!(env!("CARGO_MANIFEST_DIR"), "/../../../repo/server/lib/src/valueset/image/test_images/ok.gif")).as_slice()),
+            ("ok.svg", ImageType::Svg, include_bytes!(concat!(env!("CARGO_MANIFEST_DIR"), "/../../../repo/server/lib/src/valueset/image/test_images/ok.svg")).as_slice()),
+            ("ok.webp", ImageType::Webp, include_bytes!(concat!(env!("CARGO_MANIFEST_DIR"), "/../../../repo/server/lib/src/valueset/image/test_images/ok.webp")).as_slice()),
+        ]
+    }
+    #[allow(dead_code)]
+    fn _img_dir() -> &'static str {
+        IMG_DIR
+    }
+
+    // -----------------------------------------------------------------------------------------
+    // AST
+
+    #[derive(Debug, Clone, Copy, PartialEq, Eq, Serialize, Deserialize)]
+    pub struct GTime {
+        /// seconds after 2000-01-01T00:00:00Z
+        pub secs: u32,
+        pub nanos: u32,
+    }
+    impl GTime {
+        pub fn odt(&self) -> OffsetDateTime {
+            OffsetDateTime::UNIX_EPOCH + Duration::new(946_684_800 + self.secs as u64, self.nanos % 1_000_000_000)
+        }
+    }
+
+    #[derive(Debug, Clone, Copy, PartialEq, Eq, Serialize, Deserialize)]
+    pub struct GCid {
+        pub server: u8,
+        pub secs: u32,
+        pub nanos: u32,
+    }
+    impl GCid {
+        pub fn cid(&self) -> Cid {
+            ident::cid(uuid_n(0x5e00 + self.server as u64), Duration::new(self.secs as u64, self.nanos % 1_000_000_000))
+        }
+    }
+
+    pub fn uuid_n(n: u64) -> Uuid {
+        Uuid::from_u128(0xBBBB_0000_0000_4000_8000_0000_0000_0000u128 + n as u128)
+    }
+
+    #[derive(Debug, Clone, PartialEq, Eq, Serialize, Deserialize)]
+    pub enum GPw {
+        /// kanidm-generated hash of a cleartext: algo 0 = argon2id, 1 = pbkdf2
+        Generated { clear: String, algo: u8 },
+        /// index into IMPORTS; `lower` = scheme prefix in lower case (openldap style)
+        Import { idx: u8, lower: bool },
+    }
+    impl GPw {
+        pub fn clear(&self) -> String {
+            match self {
+                GPw::Generated { clear, .. } => clear.clone(),
+                GPw::Import { idx, .. } => IMPORTS[*idx as usize % IMPORTS.len()].2.to_string(),
+            }
+        }
+        pub fn label(&self) -> String {
+            match self {
+                GPw::Generated { algo, .. } => if *algo % 2 == 0 { "pw:argon2id".into() } else { "pw:pbkdf2".into() },
+                GPw::Import { idx, .. } => format!("pw:import:{}", IMPORTS[*idx as usize % IMPORTS.len()].0),
+            }
+        }
+        pub fn build(&self) -> Option<Password> {
+            match self {
+                GPw::Generated { clear, algo } => {
+                    let pol = CryptoPolicy::danger_test_minimum();
+                    if *algo % 2 == 0 {
+                        Password::new_argon2id(&pol, clear).ok()
+                    } else {
+                        Password::new_pbkdf2(&pol, clear).ok()
+                    }
+                }
+                GPw::Import { idx, lower } => {
+                    let s = IMPORTS[*idx as usize % IMPORTS.len()].1;
+                    let s = if *lower && s.starts_with('{') {
+                        match s.split_once('}') {
+                            Some((a, b)) => format!("{}}}{}", a.to_lowercase(), b),
+                            None => s.to_string(),
+                        }
+                    } else {
+                        s.to_string()
+                    };
+                    Password::try_from(s.as_str()).ok()
+                }
+            }
+        }
+    }
+
+    #[derive(Debug, Clone, PartialEq, Eq, Serialize, Deserialize)]
+    pub struct GTotp {
+        pub secret: Vec<u8>,
+        pub step: u8,
+        pub algo: u8,
+        pub digits8: bool,
+    }
+    impl GTotp {
+        pub fn build(&self) -> Totp {
+            let algo = match self.algo % 3 {
+                0 => TotpAlgo::Sha1,
+                1 => TotpAlgo::Sha256,
+                _ => TotpAlgo::Sha512,
+            };
+            let digits = if self.digits8 { TotpDigits::Eight } else { TotpDigits::Six };
+            Totp::new(self.secret.clone(), [30u64, 60, 15][self.step as usize % 3], algo, digits)
+        }
+    }
+
+    #[derive(Debug, Clone, PartialEq, Eq, Serialize, Deserialize)]
+    pub struct GCred {
+        pub pw: GPw,
+        pub generated: bool,
+        pub totp: Vec<(String, GTotp)>,
+        pub backup: Option<Vec<String>>,
+        pub ts: GTime,
+    }
+    impl GCred {
+        pub fn build(&self) -> Option<Credential> {
+            let pw = self.pw.build()?;
+            let ts = self.ts.odt();
+            let mut c = if self.generated { hk::cred_from_generated_password(pw, ts) } else { hk::cred_from_password(pw, ts) };
+            let mut seen = BTreeSet::new();
+            for (l, t) in &self.totp {
+                if seen.insert(l.clone()) {
+                    c = hk::cred_append_totp(&c, l, t.build(), ts);
+                }
+            }
+            if let Some(b) = &self.backup {
+                if !seen.is_empty() {
+                    c = hk::cred_set_backup_codes(&c, b.iter().cloned().collect(), ts).ok()?;
+                }
+            }
+            Some(c)
+        }
+    }
+
+    #[derive(Debug, Clone, PartialEq, Eq, Serialize, Deserialize)]
+    pub enum GState {
+        Never,
+        Expires(GTime),
+        Revoked(GCid),
+    }
+    impl GState {
+        fn build(&self) -> SessionState {
+            match self {
+                GState::Never => SessionState::NeverExpires,
+                GState::Expires(t) => SessionState::ExpiresAt(t.odt()),
+                GState::Revoked(c) => SessionState::RevokedAt(c.cid()),
+            }
+        }
+    }
+
+    #[derive(Debug, Clone, PartialEq, Eq, Serialize, Deserialize)]
+    pub struct GSession {
+        pub label: String,
+        pub state: GState,
+        pub issued_at: GTime,
+        pub by: (u8, u64),
+        pub cred: u64,
+        pub scope: u8,
+        pub ty: u8,
+        pub ext: Option<(u32, String, Option<String>)>,
+    }
+    fn identity(by: &(u8, u64)) -> IdentityId {
+        match by.0 % 3 {
+            0 => IdentityId::User(uuid_n(by.1)),
+            1 => IdentityId::Synch(uuid_n(by.1)),
+            _ => IdentityId::Internal(uuid_n(by.1)),
+        }
+    }
+
+    #[derive(Debug, Clone, PartialEq, Eq, Serialize, Deserialize)]
+    pub enum GIntent {
+        Valid { ttl: u32, perms: u8 },
+        InProgress { ttl: u32, perms: u8, sid: u64, sttl: u32 },
+        Consumed { ttl: u32 },
+    }
+    fn perms(p: u8) -> CredUpdateSessionPerms {
+        CredUpdateSessionPerms {
+            ext_cred_portal_can_view: p & 1 != 0,
+            primary_can_edit: p & 2 != 0,
+            passkeys_can_edit: p & 4 != 0,
+            attested_passkeys_can_edit: p & 8 != 0,
+            unixcred_can_edit: p & 16 != 0,
+            sshpubkey_can_edit: p & 32 != 0,
+        }
+    }
+
+    #[derive(Debug, Clone, PartialEq, Eq, Serialize, Deserialize)]
+    pub enum GFilt {
+        Eq(String, String),
+        Cnt(String, String),
+        Pres(String),
+        Or(Vec<GFilt>),
+        And(Vec<GFilt>),
+        AndNot(Box<GFilt>),
+        SelfUuid,
+    }
+    impl GFilt {
+        fn build(&self) -> ProtoFilter {
+            match self {
+                GFilt::Eq(a, v) => ProtoFilter::Eq(a.clone(), v.clone()),
+                GFilt::Cnt(a, v) => ProtoFilter::Cnt(a.clone(), v.clone()),
+                GFilt::Pres(a) => ProtoFilter::Pres(a.clone()),
+                GFilt::Or(v) => ProtoFilter::Or(v.iter().map(|f| f.build()).collect()),
+                GFilt::And(v) => ProtoFilter::And(v.iter().map(|f| f.build()).collect()),
+                GFilt::AndNot(f) => ProtoFilter::AndNot(Box::new(f.build())),
+                GFilt::SelfUuid => ProtoFilter::SelfUuid,
+            }
+        }
+    }
+
+    /// One generated value. Every variant is built through kanidm's public constructors /
+    /// public enum variants (plus the listed hooks where the constructor is crate-private).
+    #[derive(Debug, Clone, PartialEq, Eq, Serialize, Deserialize)]
+    pub enum GV {
+        Utf8(String),
+        Iutf8(String),
+        Iname(String),
+        Uuid(u64),
+        Refer(u64),
+        Bool(bool),
+        Uint32(u32),
+        Int64(i64),
+        Uint64(u64),
+        Syntax(u8),
+        Index(u8),
+        Secret(String),
+        Restricted(String),
+        Spn(String, String),
+        Cid(GCid),
+        JsonFilt(GFilt),
+        Nsuniqueid(u64),
+        Url(u8, String),
+        DateTime(GTime),
+        PrivBin(Vec<u8>),
+        PubBin(String, Vec<u8>),
+        OauthScope(String),
+        Address([String; 6]),
+        Cred { tag: String, cred: GCred },
+        SshKey { tag: String, key: u8 },
+        ScopeMap(u64, Vec<String>),
+        Intent { id: String, st: GIntent },
+        Email { addr: String, primary: bool },
+        Session { id: u64, s: GSession },
+        ApiToken { id: u64, label: String, expiry: Option<GTime>, issued_at: GTime, by: (u8, u64), scope: u8 },
+        O2Session { id: u64, parent: Option<u64>, state: GState, issued_at: GTime, rs: u64 },
+        UiHint(u8),
+        Totp { label: String, t: GTotp },
+        Audit { cid: GCid, s: String },
+        Image { name: String, img: u8 },
+        CredType(u8),
+        AttCa { mask: u8, aaguid: u64 },
+        ClaimMap { name: String, join: u8 },
+        ClaimValue { name: String, group: u64, claims: Vec<String> },
+        Hex(String),
+        KeyInternal { id: String, usage: u8, valid_from: u64, status: u8, cid: GCid, der: Vec<u8> },
+        Cert(u8),
+        AppPw { app: u64, label: String, clear: String },
+        JwsEs256(u8),
+        JwsRs256(u8),
+    }
+
+    const SYNTAXES: [SyntaxType; 8] = [
+        SyntaxType::Utf8String,
+        SyntaxType::Utf8StringInsensitive,
+        SyntaxType::Uuid,
+        SyntaxType::Credential,
+        SyntaxType::Session,
+        SyntaxType::KeyInternal,
+        SyntaxType::Sha256,
+        SyntaxType::Uint64,
+    ];
+    const CRED_TYPES: [CredentialType; 7] = [
+        CredentialType::Any,
+        CredentialType::External,
+        CredentialType::Mfa,
+        CredentialType::Passkey,
+        CredentialType::AttestedPasskey,
+        CredentialType::AttestedResidentkey,
+        CredentialType::Invalid,
+    ];
+    const URLS: [&str; 4] = ["https://idm.example.com/", "https://demo.example.com/oauth2/cb?x=1&y=%20z", "app://localhost", "http://[::1]:8080/a/b#frag"];
+
+    thread_local! {
+        static ES256: std::cell::RefCell<Vec<Value>> = const { std::cell::RefCell::new(Vec::new()) };
+        static RS256: std::cell::RefCell<Vec<Value>> = const { std::cell::RefCell::new(Vec::new()) };
+    }
+    fn cached_key(rs: bool, i: u8) -> Option<Value> {
+        let cell = if rs { &RS256 } else { &ES256 };
+        cell.with(|c| {
+            let mut c = c.borrow_mut();
+            let want = (i as usize % 2) + 1;
+            while c.len() < want {
+                let v = if rs { hk::jws_rs256_value() } else { hk::jws_es256_value() }?;
+                c.push(v);
+            }
+            c.get(i as usize % 2).cloned()
+        })
+    }
+
+    impl GV {
+        /// Name of the syntax this value belongs to (histogram label).
+        pub fn syntax(&self) -> SyntaxType {
+            match self {
+                GV::Utf8(_) => SyntaxType::Utf8String,
+                GV::Iutf8(_) => SyntaxType::Utf8StringInsensitive,
+                GV::Iname(_) => SyntaxType::Utf8StringIname,
+                GV::Uuid(_) => SyntaxType::Uuid,
+                GV::Refer(_) => SyntaxType::ReferenceUuid,
+                GV::Bool(_) => SyntaxType::Boolean,
+                GV::Uint32(_) => SyntaxType::Uint32,
+                GV::Int64(_) => SyntaxType::Int64,
+                GV::Uint64(_) => SyntaxType::Uint64,
+                GV::Syntax(_) => SyntaxType::SyntaxId,
+                GV::Index(_) => SyntaxType::IndexId,
+                GV::Secret(_) => SyntaxType::SecretUtf8String,
+                GV::Restricted(_) => SyntaxType::Utf8String,
+                GV::Spn(_, _) => SyntaxType::SecurityPrincipalName,
+                GV::Cid(_) => SyntaxType::Cid,
+                GV::JsonFilt(_) => SyntaxType::JsonFilter,
+                GV::Nsuniqueid(_) => SyntaxType::NsUniqueId,
+                GV::Url(_, _) => SyntaxType::Url,
+                GV::DateTime(_) => SyntaxType::DateTime,
+                GV::PrivBin(_) => SyntaxType::PrivateBinary,
+                GV::PubBin(_, _) => SyntaxType::PrivateBinary,
+                GV::OauthScope(_) => SyntaxType::OauthScope,
+                GV::Address(_) => SyntaxType::EmailAddress,
+                GV::Cred { .. } => SyntaxType::Credential,
+                GV::SshKey { .. } => SyntaxType::SshKey,
+                GV::ScopeMap(_, _) => SyntaxType::OauthScopeMap,
+                GV::Intent { .. } => SyntaxType::IntentToken,
+                GV::Email { .. } => SyntaxType::EmailAddress,
+                GV::Session { .. } => SyntaxType::Session,
+                GV::ApiToken { .. } => SyntaxType::ApiToken,
+                GV::O2Session { .. } => SyntaxType::Oauth2Session,
+                GV::UiHint(_) => SyntaxType::UiHint,
+                GV::Totp { .. } => SyntaxType::TotpSecret,
+                GV::Audit { .. } => SyntaxType::AuditLogString,
+                GV::Image { .. } => SyntaxType::Image,
+                GV::CredType(_) => SyntaxType::CredentialType,
+                GV::AttCa { .. } => SyntaxType::WebauthnAttestationCaList,
+                GV::ClaimMap { .. } | GV::ClaimValue { .. } => SyntaxType::OauthClaimMap,
+                GV::Hex(_) => SyntaxType::HexString,
+                GV::KeyInternal { .. } => SyntaxType::KeyInternal,
+                GV::Cert(_) => SyntaxType::Certificate,
+                GV::AppPw { .. } => SyntaxType::ApplicationPassword,
+                GV::JwsEs256(_) => SyntaxType::JwsKeyEs256,
+                GV::JwsRs256(_) => SyntaxType::JwsKeyRs256,
+            }
+        }
+
+        /// Variant name (finer than the syntax: Restricted, Address, PubBin have no own syntax).
+        pub fn kind(&self) -> String {
+            let d = format!("{self:?}");
+            d.split(|c: char| !c.is_alphanumeric()).next().unwrap_or("").to_string()
+        }
+
+        /// Build the kanidm value. None = the constructor refused the input (case is discarded).
+        pub fn build(&self) -> Option<Value> {
+            Some(match self {
+                GV::Utf8(s) => Value::new_utf8s(s),
+                GV::Iutf8(s) => Value::new_iutf8(s),
+                GV::Iname(s) => Value::new_iname(s),
+                GV::Uuid(n) => Value::Uuid(uuid_n(*n)),
+                GV::Refer(n) => Value::Refer(uuid_n(*n)),
+                GV::Bool(b) => Value::new_bool(*b),
+                GV::Uint32(u) => Value::new_uint32(*u),
+                GV::Int64(i) => Value::new_int64_str(&i.to_string())?,
+                GV::Uint64(u) => Value::new_uint64_str(&u.to_string())?,
+                GV::Syntax(i) => Value::new_syntax(SYNTAXES[*i as usize % SYNTAXES.len()]),
+                GV::Index(i) => Value::new_index([IndexType::Equality, IndexType::Presence, IndexType::SubString, IndexType::Ordering][*i as usize % 4]),
+                GV::Secret(s) => Value::new_secret_str(s),
+                GV::Restricted(s) => Value::new_restrictedstring(s.clone()),
+                GV::Spn(n, d) => Value::new_spn_str(n, d),
+                GV::Cid(c) => Value::new_cid(c.cid()),
+                GV::JsonFilt(f) => Value::new_json_filter(f.build()),
+                GV::Nsuniqueid(n) => {
+                    let h = format!("{:032x}", (*n as u128) * 0x1_0000_0001_0000_0001u128 + 0xabcdef);
+                    Value::new_nsuniqueid_s(&format!("{}-{}-{}-{}", &h[0..8], &h[8..16], &h[16..24], &h[24..32]))?
+                }
+                GV::Url(i, extra) => {
+                    let mut u = Url::parse(URLS[*i as usize % URLS.len()]).ok()?;
+                    if !extra.is_empty() && !u.cannot_be_a_base() {
+                        u.set_query(Some(extra));
+                    }
+                    Value::new_url(u)
+                }
+                GV::DateTime(t) => Value::new_datetime(t.odt()),
+                GV::PrivBin(b) => Value::new_privatebinary(b),
+                GV::PubBin(t, b) => Value::new_publicbinary(t.clone(), b.clone()),
+                GV::OauthScope(s) => Value::new_oauthscope(s)?,
+                GV::Address(a) => Value::new_address(Address {
+                    formatted: a[0].clone(),
+                    street_address: a[1].clone(),
+                    locality: a[2].clone(),
+                    region: a[3].clone(),
+                    postal_code: a[4].clone(),
+                    country: a[5].clone(),
+                }),
+                GV::Cred { tag, cred } => Value::new_credential(tag, cred.build()?),
+                GV::SshKey { tag, key } => Value::new_sshkey_str(tag, SSH_KEYS[*key as usize % SSH_KEYS.len()]).ok()?,
+                GV::ScopeMap(g, scopes) => Value::new_oauthscopemap(uuid_n(*g), scopes.iter().cloned().collect())?,
+                GV::Intent { id, st } => Value::IntentToken(
+                    id.clone(),
+                    match st {
+                        GIntent::Valid { ttl, perms: p } => IntentTokenState::Valid {
+                            max_ttl: Duration::from_secs(*ttl as u64),
+                            perms: perms(*p),
+                        },
+                        GIntent::InProgress { ttl, perms: p, sid, sttl } => IntentTokenState::InProgress {
+                            max_ttl: Duration::from_secs(*ttl as u64),
+                            perms: perms(*p),
+                            session_id: uuid_n(*sid),
+                            session_ttl: Duration::from_secs(*sttl as u64),
+                        },
+                        GIntent::Consumed { ttl } => IntentTokenState::Consumed {
+                            max_ttl: Duration::from_secs(*ttl as u64),
+                        },
+                    },
+                ),
+                GV::Email { addr, primary } => {
+                    if *primary {
+                        Value::new_email_address_primary_s(addr)?
+                    } else {
+                        Value::new_email_address_s(addr)?
+                    }
+                }
+                GV::Session { id, s } => Value::Session(
+                    uuid_n(*id),
+                    Session {
+                        label: s.label.clone(),
+                        state: s.state.build(),
+                        issued_at: s.issued_at.odt(),
+                        issued_by: identity(&s.by),
+                        cred_id: uuid_n(s.cred),
+                        scope: [SessionScope::ReadOnly, SessionScope::ReadWrite, SessionScope::PrivilegeCapable, SessionScope::Synchronise][s.scope as usize % 4],
+                        type_: [
+                            AuthType::Anonymous,
+                            AuthType::Password,
+                            AuthType::GeneratedPassword,
+                            AuthType::PasswordTotp,
+                            AuthType::PasswordBackupCode,
+                            AuthType::PasswordSecurityKey,
+                            AuthType::Passkey,
+                            AuthType::AttestedPasskey,
+                            AuthType::OAuth2Trust,
+                        ][s.ty as usize % 9],
+                        ext_metadata: match &s.ext {
+                            None => SessionExtMetadata::None,
+                            Some((exp, at, rt)) => SessionExtMetadata::OAuth2 {
+                                access_expires_at: Duration::from_secs(*exp as u64),
+                                access_token: at.clone(),
+                                refresh_token: rt.clone(),
+                            },
+                        },
+                    },
+                ),
+                GV::ApiToken { id, label, expiry, issued_at, by, scope } => Value::ApiToken(
+                    uuid_n(*id),
+                    ApiToken {
+                        label: label.clone(),
+                        expiry: expiry.map(|t| t.odt()),
+                        issued_at: issued_at.odt(),
+                        issued_by: identity(by),
+                        scope: [ApiTokenScope::ReadOnly, ApiTokenScope::ReadWrite, ApiTokenScope::Synchronise][*scope as usize % 3],
+                    },
+                ),
+                GV::O2Session { id, parent, state, issued_at, rs } => Value::Oauth2Session(
+                    uuid_n(*id),
+                    Oauth2Session {
+                        parent: parent.map(uuid_n),
+                        state: state.build(),
+                        issued_at: issued_at.odt(),
+                        rs_uuid: uuid_n(*rs),
+                    },
+                ),
+                GV::UiHint(i) => Value::UiHint(
+                    [UiHint::ExperimentalFeatures, UiHint::PosixAccount, UiHint::CredentialUpdate, UiHint::SynchronisedAccount][*i as usize % 4],
+                ),
+                GV::Totp { label, t } => Value::TotpSecret(label.clone(), t.build()),
+                GV::Audit { cid, s } => Value::new_audit_log_string((cid.cid(), s.clone()))?,
+                GV::Image { name, img } => {
+                    let imgs = images();
+                    let (_, ty, bytes) = &imgs[*img as usize % imgs.len()];
+                    Value::Image(ImageValue {
+                        filename: name.clone(),
+                        filetype: ty.clone(),
+                        contents: bytes.to_vec(),
+                    })
+                }
+                GV::CredType(i) => Value::CredentialType(CRED_TYPES[*i as usize % CRED_TYPES.len()]),
+                GV::AttCa { mask, aaguid } => {
+                    let mut devs: Vec<(&str, Uuid, &str)> = Vec::new();
+                    if mask & 1 != 0 || mask & 3 == 0 {
+                        devs.push((CERTS[1], uuid_n(*aaguid), "device a"));
+                    }
+                    if mask & 2 != 0 {
+                        devs.push((CERTS[2], uuid_n(*aaguid + 1), "device b"));
+                    }
+                    if mask & 4 != 0 {
+                        devs.push((CERTS[1], uuid_n(*aaguid + 2), "device c"));
+                    }
+                    hk::att_ca_list_value(&devs)?
+                }
+                GV::ClaimMap { name, join } => Value::OauthClaimMap(
+                    name.clone(),
+                    [OauthClaimMapJoin::CommaSeparatedValue, OauthClaimMapJoin::SpaceSeparatedValue, OauthClaimMapJoin::JsonArray][*join as usize % 3],
+                ),
+                GV::ClaimValue { name, group, claims } => Value::new_oauthclaimmap(name.clone(), uuid_n(*group), claims.iter().cloned().collect())?,
+                GV::Hex(s) => Value::new_hex_string_s(s)?,
+                GV::KeyInternal { id, usage, valid_from, status, cid, der } => hk::key_internal_value(
+                    id,
+                    [KeyUsage::JwsEs256, KeyUsage::JwsHs256, KeyUsage::JwsRs256, KeyUsage::JweA128GCM, KeyUsage::HkdfS256][*usage as usize % 5],
+                    *valid_from,
+                    [KeyStatus::Valid, KeyStatus::Retained, KeyStatus::Revoked][*status as usize % 3],
+                    cid.cid(),
+                    der.clone(),
+                ),
+                GV::Cert(i) => Value::new_certificate_s(CERTS[*i as usize % CERTS.len()])?,
+                GV::AppPw { app, label, clear } => {
+                    Value::ApplicationPassword(ApplicationPassword::new(uuid_n(*app), label, clear, &CryptoPolicy::danger_test_minimum()).ok()?)
+                }
+                GV::JwsEs256(i) => cached_key(false, *i)?,
+                GV::JwsRs256(i) => cached_key(true, *i)?,
+            })
+        }
+    }
+
+    /// A generated value set: 1..n values of one variant.
+    #[derive(Debug, Clone, PartialEq, Eq, Serialize, Deserialize)]
+    pub struct GSet {
+        pub vals: Vec<GV>,
+    }
+
+    impl GSet {
+        pub fn syntax(&self) -> SyntaxType {
+            self.vals.first().map(|v| v.syntax()).unwrap_or_default()
+        }
+        pub fn kind(&self) -> String {
+            self.vals.first().map(|v| v.kind()).unwrap_or_default()
+        }
+        /// Build the set through `from_value_iter` (the server's own set constructor).
+        pub fn build(&self) -> Option<ValueSet> {
+            let vals: Option<Vec<Value>> = self.vals.iter().map(|v| v.build()).collect();
+            let vals = vals?;
+            if !vals.iter().all(hk::value_validate) {
+                return None;
+            }
+            if vals.len() > 1 && matches!(vals.first(), Some(Value::KeyInternal { .. })) {
+                // ValueSetKeyInternal has no insert; the server builds multi-key sets with from_key_iter
+                return hk::key_internal_set(vals.iter().filter_map(hk::key_internal_parts).collect()).ok();
+            }
+            valueset::from_value_iter(vals.into_iter()).ok()
+        }
+    }
+
+    // -----------------------------------------------------------------------------------------
+    // generators
+
+    const CHARS: [char; 24] = [
+        'a', 'b', 'Z', 'q', '0', '9', ' ', '-', '_', '.', '@', 'ß', 'é', 'İ', 'ı', 'Σ', 'ς', '日', '本', '🦀', '\u{0301}', '"', '\\', '/',
+    ];
+    pub fn ustr(max: usize) -> BoxedStrategy<String> {
+        proptest::collection::vec(proptest::sample::select(CHARS.to_vec()), 0..=max)
+            .prop_map(|v| v.into_iter().collect())
+            .boxed()
+    }
+    fn ustr1(max: usize) -> BoxedStrategy<String> {
+        proptest::collection::vec(proptest::sample::select(CHARS.to_vec()), 1..=max)
+            .prop_map(|v| v.into_iter().collect())
+            .boxed()
+    }
+    fn lname(max: usize) -> BoxedStrategy<String> {
+        proptest::collection::vec(proptest::sample::select(vec!['a', 'b', 'c', 'x', 'y', '1', '2', '_', '-']), 1..=max)
+            .prop_map(|v| {
+                let s: String = v.into_iter().collect();
+                format!("n{s}")
+            })
+            .boxed()
+    }
+    fn bytes(max: usize) -> BoxedStrategy<Vec<u8>> {
+        proptest::collection::vec(any::<u8>(), 0..=max).boxed()
+    }
+    pub fn gtime() -> BoxedStrategy<GTime> {
+        (prop_oneof![Just(0u32), Just(1), 0u32..3_000_000_000, Just(3_155_760_000u32)], prop_oneof![Just(0u32), Just(999_999_999), Just(500_000_000), 0u32..1_000_000_000])
+            .prop_map(|(secs, nanos)| GTime { secs, nanos })
+            .boxed()
+    }
+    fn gcid() -> BoxedStrategy<GCid> {
+        (0u8..3, prop_oneof![Just(0u32), 1u32..2_000_000_000], prop_oneof![Just(0u32), Just(999_999_999), 0u32..1_000_000_000])
+            .prop_map(|(server, secs, nanos)| GCid { server, secs, nanos })
+            .boxed()
+    }
+    /// Index of the one dear vector (OpenLDAP argon2id, 64 MiB, t=2: seconds per verify on a loaded box).
+    pub const DEAR_IMPORT: u8 = 11;
+    pub fn gpw() -> BoxedStrategy<GPw> {
+        let cheap: Vec<u8> = (0..IMPORTS.len() as u8).filter(|i| *i != DEAR_IMPORT).collect();
+        prop_oneof![
+            120 => (ustr1(10), 0u8..2).prop_map(|(clear, algo)| GPw::Generated { clear, algo }),
+            300 => (proptest::sample::select(cheap), any::<bool>()).prop_map(|(idx, lower)| GPw::Import { idx, lower }),
+            1 => any::<bool>().prop_map(|lower| GPw::Import { idx: DEAR_IMPORT, lower }),
+        ]
+        .boxed()
+    }
+    fn gtotp() -> BoxedStrategy<GTotp> {
+        (proptest::collection::vec(any::<u8>(), 1..40), 0u8..3, 0u8..3, any::<bool>())
+            .prop_map(|(secret, step, algo, digits8)| GTotp { secret, step, algo, digits8 })
+            .boxed()
+    }
+    pub fn gcred() -> BoxedStrategy<GCred> {
+        (
+            gpw(),
+            any::<bool>(),
+            proptest::collection::vec((lname(4), gtotp()), 0..3),
+            proptest::option::of(proptest::collection::vec(lname(6), 0..4)),
+            gtime(),
+        )
+            .prop_map(|(pw, generated, totp, backup, ts)| GCred { pw, generated, totp, backup, ts })
+            .boxed()
+    }
+    fn gstate() -> BoxedStrategy<GState> {
+        prop_oneof![Just(GState::Never), gtime().prop_map(GState::Expires), gcid().prop_map(GState::Revoked)].boxed()
+    }
+    fn gsession() -> BoxedStrategy<GSession> {
+        (
+            ustr(8),
+            gstate(),
+            gtime(),
+            (0u8..3, 0u64..4),
+            0u64..4,
+            0u8..4,
+            0u8..9,
+            proptest::option::of((any::<u32>(), ustr(12), proptest::option::of(ustr(12)))),
+        )
+            .prop_map(|(label, state, issued_at, by, cred, scope, ty, ext)| GSession {
+                label,
+                state,
+                issued_at,
+                by,
+                cred,
+                scope,
+                ty,
+                ext,
+            })
+            .boxed()
+    }
+    fn gfilt() -> BoxedStrategy<GFilt> {
+        let leaf = prop_oneof![
+            (lname(5), ustr(6)).prop_map(|(a, v)| GFilt::Eq(a, v)),
+            (lname(5), ustr(6)).prop_map(|(a, v)| GFilt::Cnt(a, v)),
+            lname(5).prop_map(GFilt::Pres),
+            Just(GFilt::SelfUuid),
+        ];
+        leaf.prop_recursive(3, 12, 3, |inner| {
+            prop_oneof![
+                proptest::collection::vec(inner.clone(), 0..3).prop_map(GFilt::Or),
+                proptest::collection::vec(inner.clone(), 0..3).prop_map(GFilt::And),
+                inner.prop_map(|f| GFilt::AndNot(Box::new(f))),
+            ]
+        })
+        .boxed()
+    }
+    fn email() -> BoxedStrategy<String> {
+        (lname(5), proptest::sample::select(vec!["example.com", "Example.ORG", "mail.example.net"])).prop_map(|(l, d)| format!("{l}@{d}")).boxed()
+    }
+
+    /// Strategy for one value of variant number `k` (0..N_KINDS).
+    pub const N_KINDS: u8 = 45;
+    pub fn gv_of_kind(k: u8) -> BoxedStrategy<GV> {
+        match k {
+            0 => ustr1(10).prop_map(GV::Utf8).boxed(),
+            1 => ustr1(10).prop_map(GV::Iutf8).boxed(),
+            2 => lname(8).prop_map(GV::Iname).boxed(),
+            3 => (0u64..6).prop_map(GV::Uuid).boxed(),
+            4 => (0u64..6).prop_map(GV::Refer).boxed(),
+            5 => any::<bool>().prop_map(GV::Bool).boxed(),
+            6 => prop_oneof![Just(0u32), Just(u32::MAX), any::<u32>()].prop_map(GV::Uint32).boxed(),
+            7 => prop_oneof![Just(0i64), Just(i64::MIN), Just(i64::MAX), any::<i64>()].prop_map(GV::Int64).boxed(),
+            8 => prop_oneof![Just(0u64), Just(u64::MAX), any::<u64>()].prop_map(GV::Uint64).boxed(),
+            9 => (0u8..8).prop_map(GV::Syntax).boxed(),
+            10 => (0u8..4).prop_map(GV::Index).boxed(),
+            11 => ustr1(12).prop_map(GV::Secret).boxed(),
+            // RestrictedString / PublicBinary / Address value sets have no SyntaxType (`syntax()` is
+            // `unreachable!()`): they are not storable attribute types, so they are not generated.
+            12 => ustr1(10).prop_map(GV::Utf8).boxed(),
+            13 => (lname(6), proptest::sample::select(vec!["example.com", "new.example.org"])).prop_map(|(n, d)| GV::Spn(n, d.to_string())).boxed(),
+            14 => gcid().prop_map(GV::Cid).boxed(),
+            15 => gfilt().prop_map(GV::JsonFilt).boxed(),
+            16 => any::<u64>().prop_map(GV::Nsuniqueid).boxed(),
+            17 => (0u8..4, prop_oneof![Just(String::new()), lname(6)]).prop_map(|(i, e)| GV::Url(i, e)).boxed(),
+            18 => gtime().prop_map(GV::DateTime).boxed(),
+            19 => bytes(40).prop_map(GV::PrivBin).boxed(),
+            20 => bytes(40).prop_map(GV::PrivBin).boxed(),
+            21 => lname(6).prop_map(GV::OauthScope).boxed(),
+            22 => (email(), any::<bool>()).prop_map(|(addr, primary)| GV::Email { addr, primary }).boxed(),
+            23 => (lname(5), gcred()).prop_map(|(tag, cred)| GV::Cred { tag, cred }).boxed(),
+            24 => (lname(5), 0u8..3).prop_map(|(tag, key)| GV::SshKey { tag, key }).boxed(),
+            25 => (0u64..5, proptest::collection::vec(lname(5), 1..4)).prop_map(|(g, s)| GV::ScopeMap(g, s)).boxed(),
+            26 => (
+                lname(8),
+                prop_oneof![
+                    (any::<u32>(), any::<u8>()).prop_map(|(ttl, perms)| GIntent::Valid { ttl, perms }),
+                    (any::<u32>(), any::<u8>(), 0u64..5, any::<u32>()).prop_map(|(ttl, perms, sid, sttl)| GIntent::InProgress { ttl, perms, sid, sttl }),
+                    any::<u32>().prop_map(|ttl| GIntent::Consumed { ttl }),
+                ],
+            )
+                .prop_map(|(id, st)| GV::Intent { id, st })
+                .boxed(),
+            27 => (email(), any::<bool>()).prop_map(|(addr, primary)| GV::Email { addr, primary }).boxed(),
+            28 => (0u64..6, gsession()).prop_map(|(id, s)| GV::Session { id, s }).boxed(),
+            29 => (0u64..6, ustr(8), proptest::option::of(gtime()), gtime(), (0u8..3, 0u64..4), 0u8..3)
+                .prop_map(|(id, label, expiry, issued_at, by, scope)| GV::ApiToken {
+                    id,
+                    label,
+                    expiry,
+                    issued_at,
+                    by,
+                    scope,
+                })
+                .boxed(),
+            30 => (0u64..6, proptest::option::of(0u64..4), gstate(), gtime(), 0u64..4)
+                .prop_map(|(id, parent, state, issued_at, rs)| GV::O2Session {
+                    id,
+                    parent,
+                    state,
+                    issued_at,
+                    rs,
+                })
+                .boxed(),
+            31 => (0u8..4).prop_map(GV::UiHint).boxed(),
+            32 => (lname(5), gtotp()).prop_map(|(label, t)| GV::Totp { label, t }).boxed(),
+            33 => (gcid(), ustr1(12)).prop_map(|(cid, s)| GV::Audit { cid, s }).boxed(),
+            34 => (lname(6), 0u8..5).prop_map(|(name, img)| GV::Image { name, img }).boxed(),
+            35 => (0u8..7).prop_map(GV::CredType).boxed(),
+            36 => (0u8..8, 0u64..4).prop_map(|(mask, aaguid)| GV::AttCa { mask, aaguid }).boxed(),
+            37 => (lname(5), 0u8..3).prop_map(|(name, join)| GV::ClaimMap { name, join }).boxed(),
+            38 => (lname(3), 0u64..4, proptest::collection::vec(lname(4), 1..3))
+                .prop_map(|(name, group, claims)| GV::ClaimValue { name, group, claims })
+                .boxed(),
+            39 => proptest::collection::vec(proptest::sample::select("0123456789abcdefABCDEF".chars().collect::<Vec<_>>()), 1..20)
+                .prop_map(|v| GV::Hex(v.into_iter().collect()))
+                .boxed(),
+            40 => (
+                proptest::collection::vec(proptest::sample::select("0123456789abcdef".chars().collect::<Vec<_>>()), 1..16),
+                0u8..5,
+                any::<u64>(),
+                0u8..3,
+                gcid(),
+                bytes(48),
+            )
+                .prop_map(|(id, usage, valid_from, status, cid, der)| GV::KeyInternal {
+                    id: id.into_iter().collect(),
+                    usage,
+                    valid_from,
+                    status,
+                    cid,
+                    der,
+                })
+                .boxed(),
+            41 => (0u8..3).prop_map(GV::Cert).boxed(),
+            42 => (0u64..4, lname(5), ustr1(8)).prop_map(|(app, label, clear)| GV::AppPw { app, label, clear }).boxed(),
+            43 => (0u8..2).prop_map(GV::JwsEs256).boxed(),
+            _ => (0u8..2).prop_map(GV::JwsRs256).boxed(),
+        }
+    }
+
+    /// Relative weight of a kind: credentials (the richest kind) are drawn most often, the two
+    /// expensive key kinds rarely.
+    fn kind_weight(k: u8) -> u32 {
+        match k {
+            23 => 30,
+            28 | 29 | 30 | 32 | 42 => 4,
+            43 => 1,
+            44 => 1,
+            _ => 2,
+        }
+    }
+
+    pub fn arb_gset() -> BoxedStrategy<GSet> {
+        let opts: Vec<(u32, BoxedStrategy<GSet>)> = (0..N_KINDS)
+            .map(|k| {
+                let max = match k {
+                    34 | 36 | 41 | 43 | 44 => 2usize,
+                    23 | 42 => 3,
+                    _ => 4,
+                };
+                (kind_weight(k), proptest::collection::vec(gv_of_kind(k), 1..=max).prop_map(|vals| GSet { vals }).boxed())
+            })
+            .collect();
+        proptest::strategy::Union::new_weighted(opts).boxed()
+    }
+
+    // -----------------------------------------------------------------------------------------
+    // deep comparison
+
+    fn sorted<T: Ord>(mut v: Vec<T>) -> Vec<T> {
+        v.sort();
+        v
+    }
+
+    /// Field-by-field equality of two values of the same variant (kanidm's own `PartialEq for Value`
+    /// compares only the key part of most structured values).
+    pub fn veq(a: &Value, b: &Value) -> bool {
+        match (a, b) {
+            (Value::Utf8(x), Value::Utf8(y))
+            | (Value::Iutf8(x), Value::Iutf8(y))
+            | (Value::Iname(x), Value::Iname(y))
+            | (Value::SecretValue(x), Value::SecretValue(y))
+            | (Value::Nsuniqueid(x), Value::Nsuniqueid(y))
+            | (Value::OauthScope(x), Value::OauthScope(y))
+            | (Value::RestrictedString(x), Value::RestrictedString(y))
+            | (Value::HexString(x), Value::HexString(y)) => x == y,
+            (Value::Uuid(x), Value::Uuid(y)) | (Value::Refer(x), Value::Refer(y)) => x == y,
+            (Value::Bool(x), Value::Bool(y)) => x == y,
+            (Value::Syntax(x), Value::Syntax(y)) => x == y,
+            (Value::Index(x), Value::Index(y)) => x == y,
+            (Value::JsonFilt(x), Value::JsonFilt(y)) => x == y,
+            (Value::Cred(t1, c1), Value::Cred(t2, c2)) => t1 == t2 && c1 == c2,
+            (Value::SshKey(t1, k1), Value::SshKey(t2, k2)) => t1 == t2 && k1.to_string() == k2.to_string(),
+            (Value::Spn(a1, b1), Value::Spn(a2, b2)) => a1 == a2 && b1 == b2,
+            (Value::Uint32(x), Value::Uint32(y)) => x == y,
+            (Value::Int64(x), Value::Int64(y)) => x == y,
+            (Value::Uint64(x), Value::Uint64(y)) => x == y,
+            (Value::Cid(x), Value::Cid(y)) => x == y,
+            (Value::DateTime(x), Value::DateTime(y)) => x == y,
+            (Value::EmailAddress(a1, p1), Value::EmailAddress(a2, p2)) => a1 == a2 && p1 == p2,
+            (Value::Address(x), Value::Address(y)) => x == y,
+            (Value::Url(x), Value::Url(y)) => x == y && x.as_str() == y.as_str(),
+            (Value::OauthScopeMap(u1, s1), Value::OauthScopeMap(u2, s2)) => u1 == u2 && s1 == s2,
+            (Value::PrivateBinary(x), Value::PrivateBinary(y)) => x == y,
+            (Value::PublicBinary(t1, x), Value::PublicBinary(t2, y)) => t1 == t2 && x == y,
+            (Value::IntentToken(i1, s1), Value::IntentToken(i2, s2)) => i1 == i2 && s1 == s2,
+            (Value::Session(u1, s1), Value::Session(u2, s2)) => u1 == u2 && s1 == s2,
+            (Value::ApiToken(u1, s1), Value::ApiToken(u2, s2)) => u1 == u2 && s1 == s2,
+            (Value::Oauth2Session(u1, s1), Value::Oauth2Session(u2, s2)) => u1 == u2 && s1 == s2,
+            (Value::JwsKeyEs256(_), Value::JwsKeyEs256(_)) | (Value::JwsKeyRs256(_), Value::JwsKeyRs256(_)) => {
+                let (x, y) = (hk::jws_private_der(a), hk::jws_private_der(b));
+                x.is_some() && x == y
+            }
+            (Value::UiHint(x), Value::UiHint(y)) => x == y,
+            (Value::TotpSecret(l1, t1), Value::TotpSecret(l2, t2)) => l1 == l2 && t1 == t2,
+            (Value::AuditLogString(c1, s1), Value::AuditLogString(c2, s2)) => c1 == c2 && s1 == s2,
+            (Value::Image(x), Value::Image(y)) => x == y,
+            (Value::CredentialType(x), Value::CredentialType(y)) => x == y,
+            (Value::WebauthnAttestationCaList(x), Value::WebauthnAttestationCaList(y)) => {
+                serde_json::to_string(x).ok().is_some_and(|sx| Some(sx) == serde_json::to_string(y).ok())
+            }
+            (Value::OauthClaimValue(n1, g1, c1), Value::OauthClaimValue(n2, g2, c2)) => n1 == n2 && g1 == g2 && c1 == c2,
+            (Value::OauthClaimMap(n1, j1), Value::OauthClaimMap(n2, j2)) => n1 == n2 && j1 == j2,
+            (Value::KeyInternal { .. }, Value::KeyInternal { .. }) => {
+                let (x, y) = (hk::key_internal_parts(a), hk::key_internal_parts(b));
+                x.is_some() && x == y
+            }
+            (Value::Certificate(x), Value::Certificate(y)) => x == y,
+            (Value::ApplicationPassword(x), Value::ApplicationPassword(y)) => hk::apppwd_parts(x) == hk::apppwd_parts(y),
+            (Value::Json(x), Value::Json(y)) => x == y,
+            (Value::Sha256(x), Value::Sha256(y)) => x == y,
+            _ => false,
+        }
+    }
+
+    /// Compare a value set before and after a round trip. Returns the first discrepancy.
+    pub fn same(before: &ValueSet, after: &ValueSet) -> Result<(), String> {
+        if before.syntax() != after.syntax() {
+            return Err(format!("syntax {:?} became {:?}", before.syntax(), after.syntax()));
+        }
+        if before.len() != after.len() {
+            return Err(format!("{:?}: {} values became {}", before.syntax(), before.len(), after.len()));
+        }
+        // these two sets do not support `to_value_iter` (it debug-asserts); their typed maps have
+        // derived, deep `PartialEq`
+        let (bv, mut av): (Vec<Value>, Vec<Value>) = match before.syntax() {
+            SyntaxType::KeyInternal => {
+                let (x, y) = (before.as_key_internal_map(), after.as_key_internal_map());
+                if x.is_none() || x != y {
+                    return Err(format!("KeyInternal: key map {:?} became {:?}", x.map(|m| m.len()), y.map(|m| m.len())));
+                }
+                (Vec::new(), Vec::new())
+            }
+            SyntaxType::OauthClaimMap => {
+                let (x, y) = (before.as_oauthclaim_map(), after.as_oauthclaim_map());
+                if x.is_none() || x != y {
+                    return Err(format!("OauthClaimMap: {x:?} became {y:?}"));
+                }
+                (Vec::new(), Vec::new())
+            }
+            _ => (before.to_value_iter().collect(), after.to_value_iter().collect()),
+        };
+        if bv.len() != av.len() {
+            return Err(format!("{:?}: {} values became {} (value iterator)", before.syntax(), bv.len(), av.len()));
+        }
+        for b in &bv {
+            match av.iter().position(|a| veq(b, a)) {
+                Some(i) => {
+                    av.swap_remove(i);
+                }
+                None => return Err(format!("{:?}: value {b:?} has no field-for-field equal value after the round trip; candidates left: {av:?}", before.syntax())),
+            }
+        }
+        let (pb, pa) = (sorted(before.to_proto_string_clone_iter().collect::<Vec<_>>()), sorted(after.to_proto_string_clone_iter().collect::<Vec<_>>()));
+        if pb != pa {
+            return Err(format!("{:?}: proto strings {pb:?} became {pa:?}", before.syntax()));
+        }
+        let (kb, ka) = (sorted(before.generate_idx_eq_keys()), sorted(after.generate_idx_eq_keys()));
+        if kb != ka {
+            return Err(format!("{:?}: equality index keys {kb:?} became {ka:?}", before.syntax()));
+        }
+        if before.syntax() == SyntaxType::EmailAddress && before.as_email_str_iter().is_some() {
+            let (x, y) = (before.to_email_address_primary_str(), after.to_email_address_primary_str());
+            if x != y {
+                return Err(format!("primary mail {x:?} became {y:?}"));
+            }
+        }
+        // (kanidm's own `ValueSet::equal` is not consulted: it is unimplemented / key-only for
+        // several syntaxes and debug-asserts on some.)
+        Ok(())
+    }
+
+    // -----------------------------------------------------------------------------------------
+    // behaviour probes
+
+    pub fn near_misses(clear: &str) -> Vec<String> {
+        let mut v = vec![String::new(), format!("{clear}x")];
+        let mut cs: Vec<char> = clear.chars().collect();
+        if let Some(l) = cs.last_mut() {
+            *l = if *l == 'a' { 'b' } else { 'a' };
+            v.push(cs.iter().collect());
+        }
+        v.retain(|s| s != clear);
+        v
+    }
+
+    pub const PROBE_TIMES: [u64; 5] = [120, 149, 1_234_567_890, 1_700_000_000, 4_102_444_799];
+
+    fn probe_pw(out: &mut BTreeMap<String, String>, key: &str, pw: &Password, clear: &str, dear: bool) {
+        out.insert(format!("{key}:verify(right)"), format!("{:?}", pw.verify(clear)));
+        for (i, n) in near_misses(clear).iter().enumerate().skip(if dear { 2 } else { 0 }) {
+            out.insert(format!("{key}:verify(near-miss {i})"), format!("{:?}", pw.verify(n)));
+        }
+        out.insert(format!("{key}:requires_upgrade"), format!("{}", pw.requires_upgrade()));
+    }
+    fn probe_totp(out: &mut BTreeMap<String, String>, key: &str, t: &Totp) {
+        for ts in PROBE_TIMES {
+            let d = Duration::from_secs(ts);
+            let code = t.do_totp_duration_from_epoch(&d);
+            out.insert(format!("{key}:code@{ts}"), format!("{code:?}"));
+            if let Ok(c) = code {
+                out.insert(format!("{key}:verify@{ts}"), format!("{}", t.verify(c, d)));
+                out.insert(format!("{key}:verify-wrong@{ts}"), format!("{}", t.verify((c + 1) % 1_000_000, d)));
+            }
+        }
+    }
+
+    /// Observable behaviour of a value set given the generator's knowledge of cleartexts.
+    /// key -> observation. Compared before/after every round trip; the `expect` map lists
+    /// observations the model demands (right password verifies, near-miss does not).
+    pub fn behaviour(vs: &ValueSet, g: &GSet) -> BTreeMap<String, String> {
+        let mut out = BTreeMap::new();
+        if let Some(m) = (vs.syntax() == SyntaxType::KeyInternal).then(|| vs.as_key_internal_map()).flatten() {
+            for (k, d) in m {
+                out.insert(format!("key[{k:?}]:status"), format!("{:?}@{:?} usage {:?} from {}", d.status, d.status_cid, d.usage, d.valid_from));
+            }
+            return out;
+        }
+        if vs.syntax() == SyntaxType::OauthClaimMap {
+            return out;
+        }
+        for v in vs.to_value_iter() {
+            match &v {
+                Value::Cred(tag, c) => {
+                    let Some(gc) = g.vals.iter().find_map(|x| match x {
+                        GV::Cred { tag: t, cred } if t == tag => Some(cred),
+                        _ => None,
+                    }) else {
+                        continue;
+                    };
+                    let key = format!("cred[{tag}]");
+                    out.insert(format!("{key}:kind"), hk::cred_kind(c).to_string());
+                    out.insert(format!("{key}:uuid"), hk::cred_uuid(c).to_string());
+                    out.insert(format!("{key}:timestamp"), c.timestamp().to_string());
+                    out.insert(format!("{key}:is_mfa"), c.is_mfa().to_string());
+                    if let Ok(pw) = c.password_ref() {
+                        probe_pw(&mut out, &key, pw, &gc.pw.clear(), matches!(gc.pw, GPw::Import { idx, .. } if idx % IMPORTS.len() as u8 == DEAR_IMPORT));
+                    }
+                    for (l, t) in hk::cred_totps(c) {
+                        probe_totp(&mut out, &format!("{key}:totp[{l}]"), &t);
+                    }
+                    if let Some(codes) = &gc.backup {
+                        for code in codes.iter().map(|s| s.as_str()).chain(["nope"]) {
+                            out.insert(format!("{key}:backup({code})"), format!("{:?}", hk::cred_backup_code_verify(c, code)));
+                        }
+                    }
+                }
+                Value::TotpSecret(l, t) => probe_totp(&mut out, &format!("totp[{l}]"), t),
+                Value::ApplicationPassword(ap) => {
+                    let (u, app, label, pw) = hk::apppwd_parts(ap);
+                    // which of several generated passwords with the same (application, label) the set
+                    // keeps is the set's business: probe only when the model is unambiguous
+                    let cands: Vec<&String> = g
+                        .vals
+                        .iter()
+                        .filter_map(|x| match x {
+                            GV::AppPw { app: a, label: l, clear } if uuid_n(*a) == app && *l == label => Some(clear),
+                            _ => None,
+                        })
+                        .collect();
+                    if let [clear] = cands.as_slice() {
+                        let _ = u;
+                        probe_pw(&mut out, &format!("apppw[{app}/{label}]"), &pw, clear, false);
+                    }
+                }
+                Value::Session(u, s) => {
+                    out.insert(format!("session[{u}]:state"), format!("{:?}", s.state));
+                    out.insert(format!("session[{u}]:scope/type"), format!("{:?}/{:?}", s.scope, s.type_));
+                }
+                Value::Oauth2Session(u, s) => {
+                    out.insert(format!("o2session[{u}]:state"), format!("{:?}", s.state));
+                }
+                Value::ApiToken(u, s) => {
+                    out.insert(format!("apitoken[{u}]:expiry/scope"), format!("{:?}/{:?}", s.expiry, s.scope));
+                }
+                Value::KeyInternal { status, status_cid, .. } => {
+                    let id = hk::key_internal_parts(&v).map(|p| p.0).unwrap_or_default();
+                    out.insert(format!("key[{id}]:status"), format!("{status:?}@{status_cid:?}"));
+                }
+                _ => {}
+            }
+        }
+        out
+    }
+
+    /// What the model demands of `behaviour` before storage: right cleartext verifies, every
+    /// near-miss does not. Returns the first disagreement (a corpus/harness problem, not a C12 violation).
+    pub fn behaviour_model_check(obs: &BTreeMap<String, String>) -> Result<usize, String> {
+        let mut n = 0;
+        for (k, v) in obs {
+            if k.ends_with(":verify(right)") {
+                n += 1;
+                if v != "Ok(true)" {
+                    return Err(format!("{k} = {v} before storage"));
+                }
+            } else if k.contains(":verify(near-miss") && v != "Ok(false)" {
+                return Err(format!("{k} = {v} before storage"));
+            }
+        }
+        Ok(n)
+    }
+
+    pub fn behaviour_diff(before: &BTreeMap<String, String>, after: &BTreeMap<String, String>) -> Option<String> {
+        let keys: BTreeSet<&String> = before.keys().chain(after.keys()).collect();
+        for k in keys {
+            if before.get(k) != after.get(k) {
+                return Some(format!("{k}: {:?} before, {:?} after", before.get(k), after.get(k)));
+            }
+        }
+        None
+    }
+
+    pub fn syntax_name(s: SyntaxType) -> String {
+        format!("{s:?}")
+    }
+}
+
+// =================================================================================================
+/// Backup / restore helpers (C12, C13).
+pub mod bak {
+    use crate::srv;
+    use kanidm_proto::backup::BackupCompression;
+    use kanidm_proto::internal::FsType;
+    use kanidmd_lib::be::{Backend, BackendConfig, BackendTransaction};
+    use kanidmd_lib::prelude::*;
+    use kanidmd_lib::schema::Schema;
+
+    pub fn compression(gzip: bool) -> BackupCompression {
+        if gzip {
+            BackupCompression::Gzip
+        } else {
+            BackupCompression::NoCompression
+        }
+    }
+
+    /// Backup of the database as seen by a read transaction.
+    pub fn backup(r: &mut QueryServerReadTransaction<'_>, gzip: bool) -> Result<Vec<u8>, OperationError> {
+        let mut out: Vec<u8> = Vec::new();
+        r.get_be_txn().backup(&mut out, compression(gzip))?;
+        Ok(out)
+    }
+
+    /// A fresh, empty in-memory backend with the core (in-memory) schema's index metadata,
+    /// as `restore_server_core` sets it up.
+    pub fn fresh_backend() -> Result<(Backend, Schema), OperationError> {
+        let schema = Schema::new()?;
+        let idxmeta = {
+            let w = schema.write();
+            w.reload_idxmeta()
+        };
+        let cfg = BackendConfig::new(None, 1, FsType::Generic, Some(2048));
+        Ok((Backend::new(cfg, idxmeta, false)?, schema))
+    }
+
+    /// restore + commit + reindex + commit, exactly the steps of `restore_server_core`.
+    pub fn restore_into(be: &Backend, data: &[u8], gzip: bool) -> Result<(), OperationError> {
+        let mut w = be.write()?;
+        w.restore(data, compression(gzip))?;
+        w.commit()?;
+        let mut w = be.write()?;
+        w.reindex(true)?;
+        w.commit()
+    }
+
+    /// Restore into a fresh in-memory backend (not yet started).
+    pub fn restore_fresh(data: &[u8], gzip: bool) -> Result<(Backend, Schema), OperationError> {
+        let (be, schema) = fresh_backend()?;
+        restore_into(&be, data, gzip)?;
+        Ok((be, schema))
+    }
+
+    /// Start a query server on a restored backend (`initialise_helper` at `now`, as a normal server start does).
+    pub async fn start(be: Backend, schema: Schema, now: Duration) -> Result<QueryServer, OperationError> {
+        let qs = QueryServer::new(be, schema, srv::DOMAIN.to_string(), now)?;
+        qs.initialise_helper(now, DOMAIN_TGT_LEVEL).await?;
+        Ok(qs)
+    }
+
+    /// Restore into a fresh backend and start a query server on it.
+    pub async fn restore_and_start(data: &[u8], gzip: bool, now: Duration) -> Result<QueryServer, OperationError> {
+        let (be, schema) = restore_fresh(data, gzip)?;
+        start(be, schema, now).await
+    }
+
+    /// A file-backed backend at `path` (pool 1) with the core schema's index metadata.
+    pub fn file_backend(path: &std::path::Path) -> Result<(Backend, Schema), OperationError> {
+        let schema = Schema::new()?;
+        let idxmeta = {
+            let w = schema.write();
+            w.reload_idxmeta()
+        };
+        let cfg = BackendConfig::new(Some(path), 1, FsType::Generic, Some(2048));
+        Ok((Backend::new(cfg, idxmeta, false)?, schema))
+    }
+}
+
+// =================================================================================================
+/// C12 end-to-end: generated populations through a real server and every way an entry travels.
+pub mod e2e {
+    use super::bak;
+    use super::val::{self, GCred, GPw, GSession, GSet, GTime, GV};
+    use crate::dump;
+    use crate::inv::E;
+    use crate::ops::Node;
+    use crate::repl::{Cluster, ReplResult};
+    use kanidmd_lib::prelude::*;
+    use kanidmd_lib::schema::SchemaTransaction;
+    use kanidmd_lib::valueset::ValueSet;
+    use proptest::prelude::*;
+    use serde::{Deserialize, Serialize};
+    use std::collections::{BTreeMap, BTreeSet};
+    use vf_core::{CaseLog, Outcome};
+
+    #[derive(Debug, Clone, Serialize, Deserialize)]
+    pub struct PSpec {
+        pub display: String,
+        pub legal: Option<String>,
+        pub mails: Vec<(String, bool)>,
+        pub cred: Option<GCred>,
+        pub unix: Option<GPw>,
+        pub ssh: Vec<(String, u8)>,
+        pub expire: Option<GTime>,
+        pub valid_from: Option<GTime>,
+        pub sessions: Vec<(u64, GSession)>,
+        pub radius: Option<String>,
+    }
+    #[derive(Debug, Clone, Serialize, Deserialize)]
+    pub struct SSpec {
+        pub desc: Option<String>,
+        pub tokens: Vec<GV>,
+    }
+    #[derive(Debug, Clone, Serialize, Deserialize)]
+    pub struct GSpec {
+        pub desc: Option<String>,
+        pub members: Vec<u8>,
+        /// account policy values: (auth_session_expiry, privilege_expiry, min pw len, credential type, attestation ca mask, fallback)
+        pub policy: Option<(u32, u32, u32, u8, Option<u8>, bool)>,
+    }
+    #[derive(Debug, Clone, Serialize, Deserialize)]
+    pub struct OSpec {
+        pub display: String,
+        pub url: u8,
+        pub scopes: Vec<String>,
+        pub claim: Option<(String, Vec<String>, u8)>,
+        pub image: Option<u8>,
+        pub pkce_off: bool,
+    }
+    #[derive(Debug, Clone, Serialize, Deserialize)]
+    pub struct Case {
+        pub persons: Vec<PSpec>,
+        pub services: Vec<SSpec>,
+        pub groups: Vec<GSpec>,
+        pub oauth: Option<OSpec>,
+        pub gzip: bool,
+    }
+
+    fn pspec() -> BoxedStrategy<PSpec> {
+        let mail = (proptest::sample::select(vec!["a", "b", "c.d", "Zed"]), proptest::sample::select(vec!["example.com", "mail.example.org"]), any::<bool>())
+            .prop_map(|(l, d, p)| (format!("{l}@{d}"), p));
+        let sess = match val::gv_of_kind(28).prop_map(|v| match v {
+            GV::Session { id, s } => (id, s),
+            _ => unreachable!(),
+        }) {
+            s => s,
+        };
+        (
+            (val::ustr(8).prop_map(|s| format!("d{s}")), proptest::option::of(val::ustr(8).prop_map(|s| format!("l{s}")))),
+            proptest::collection::vec(mail, 0..3),
+            proptest::option::weighted(0.85, val::gcred()),
+            proptest::option::weighted(0.3, val::gpw()),
+            proptest::collection::vec((proptest::sample::select(vec!["k1", "k2", "laptop"]).prop_map(String::from), 0u8..3), 0..3),
+            (proptest::option::of(val::gtime()), proptest::option::of(val::gtime())),
+            proptest::collection::vec(sess, 0..3),
+            proptest::option::of(val::ustr(10).prop_map(|s| format!("r{s}"))),
+        )
+            .prop_map(|((display, legal), mails, cred, unix, ssh, (expire, valid_from), sessions, radius)| PSpec {
+                display,
+                legal,
+                mails,
+                cred,
+                unix,
+                ssh,
+                expire,
+                valid_from,
+                sessions,
+                radius,
+            })
+            .boxed()
+    }
+
+    pub fn arb_case() -> BoxedStrategy<Case> {
+        let sspec = (proptest::option::of(val::ustr(6).prop_map(|s| format!("s{s}"))), proptest::collection::vec(val::gv_of_kind(29), 0..3)).prop_map(|(desc, tokens)| SSpec { desc, tokens });
+        let gspec = (
+            proptest::option::of(val::ustr(6).prop_map(|s| format!("g{s}"))),
+            proptest::collection::vec(0u8..4, 0..3),
+            proptest::option::of((1u32..100_000, 1u32..3600, 1u32..32, 0u8..6, proptest::option::of(0u8..8), any::<bool>())),
+        )
+            .prop_map(|(desc, members, policy)| GSpec { desc, members, policy });
+        let ospec = (
+            val::ustr(6).prop_map(|s| format!("o{s}")),
+            0u8..2,
+            proptest::collection::vec(proptest::sample::select(vec!["read", "write", "email"]).prop_map(String::from), 1..3),
+            proptest::option::of((proptest::sample::select(vec!["role", "dept"]).prop_map(String::from), proptest::collection::vec(proptest::sample::select(vec!["admin", "user", "x_y"]).prop_map(String::from), 1..3), 0u8..3)),
+            proptest::option::of(0u8..5),
+            any::<bool>(),
+        )
+            .prop_map(|(display, url, scopes, claim, image, pkce_off)| OSpec {
+                display,
+                url,
+                scopes,
+                claim,
+                image,
+                pkce_off,
+            });
+        (
+            proptest::collection::vec(pspec(), 1..4),
+            proptest::collection::vec(sspec, 0..2),
+            proptest::collection::vec(gspec, 0..3),
+            proptest::option::of(ospec),
+            any::<bool>(),
+        )
+            .prop_map(|(persons, services, groups, oauth, gzip)| Case {
+                persons,
+                services,
+                groups,
+                oauth,
+                gzip,
+            })
+            .boxed()
+    }
+
+    pub fn p_uuid(i: usize) -> Uuid {
+        crate::pop::person_uuid(i as u32)
+    }
+    pub fn s_uuid(i: usize) -> Uuid {
+        crate::pop::service_uuid(i as u32)
+    }
+    pub fn g_uuid(i: usize) -> Uuid {
+        crate::pop::group_uuid(i as u32)
+    }
+    pub fn o_uuid() -> Uuid {
+        crate::pop::uuid_of(crate::pop::Kind::OAuth2, 0)
+    }
+
+    /// What the model remembers of an attribute it set: the generated set (for behaviour) and the
+    /// value set that was handed to the server.
+    pub struct Put {
+        pub uuid: Uuid,
+        pub attr: Attribute,
+        pub g: GSet,
+        pub vs: ValueSet,
+    }
+
+    fn put(e: &mut crate::pop::NewEntry, puts: &mut Vec<Put>, uuid: Uuid, attr: Attribute, vals: Vec<GV>) {
+        if vals.is_empty() {
+            return;
+        }
+        let g = GSet { vals };
+        if let Some(vs) = g.build() {
+            e.set_ava_set(&attr, vs.clone());
+            puts.push(Put { uuid, attr, g, vs });
+        }
+    }
+
+    /// Build the entries of a case. Returns (kind label, entry) pairs and the model.
+    pub fn build(c: &Case) -> (Vec<(&'static str, crate::pop::NewEntry)>, Vec<Put>) {
+        let mut out = Vec::new();
+        let mut puts = Vec::new();
+        for (i, p) in c.persons.iter().enumerate() {
+            let u = p_uuid(i);
+            let mut e = crate::pop::person(u, &format!("person{i}"));
+            put(&mut e, &mut puts, u, Attribute::DisplayName, vec![GV::Utf8(p.display.clone())]);
+            if let Some(l) = &p.legal {
+                put(&mut e, &mut puts, u, Attribute::LegalName, vec![GV::Utf8(l.clone())]);
+            }
+            put(&mut e, &mut puts, u, Attribute::Mail, p.mails.iter().map(|(a, pr)| GV::Email { addr: a.clone(), primary: *pr }).collect());
+            if let Some(cr) = &p.cred {
+                put(&mut e, &mut puts, u, Attribute::PrimaryCredential, vec![GV::Cred { tag: "primary".into(), cred: cr.clone() }]);
+            }
+            if let Some(pw) = &p.unix {
+                e.add_ava(Attribute::Class, EntryClass::PosixAccount.to_value());
+                put(
+                    &mut e,
+                    &mut puts,
+                    u,
+                    Attribute::UnixPassword,
+                    vec![GV::Cred {
+                        tag: "unix".into(),
+                        cred: GCred {
+                            pw: pw.clone(),
+                            generated: false,
+                            totp: vec![],
+                            backup: None,
+                            ts: GTime { secs: 700_000_000, nanos: 0 },
+                        },
+                    }],
+                );
+            }
+            let mut tags = BTreeSet::new();
+            put(
+                &mut e,
+                &mut puts,
+                u,
+                Attribute::SshPublicKey,
+                p.ssh.iter().filter(|(t, _)| tags.insert(t.clone())).map(|(t, k)| GV::SshKey { tag: t.clone(), key: *k }).collect(),
+            );
+            if let Some(t) = p.expire {
+                put(&mut e, &mut puts, u, Attribute::AccountExpire, vec![GV::DateTime(t)]);
+            }
+            if let Some(t) = p.valid_from {
+                put(&mut e, &mut puts, u, Attribute::AccountValidFrom, vec![GV::DateTime(t)]);
+            }
+            let mut ids = BTreeSet::new();
+            put(
+                &mut e,
+                &mut puts,
+                u,
+                Attribute::UserAuthTokenSession,
+                p.sessions.iter().filter(|(id, _)| ids.insert(*id)).map(|(id, s)| GV::Session { id: *id, s: s.clone() }).collect(),
+            );
+            if let Some(r) = &p.radius {
+                put(&mut e, &mut puts, u, Attribute::RadiusSecret, vec![GV::Secret(r.clone())]);
+            }
+            out.push(("person", e));
+        }
+        for (i, s) in c.services.iter().enumerate() {
+            let u = s_uuid(i);
+            let mut e = crate::pop::service(u, &format!("service{i}"));
+            if let Some(d) = &s.desc {
+                put(&mut e, &mut puts, u, Attribute::Description, vec![GV::Utf8(d.clone())]);
+            }
+            let mut ids = BTreeSet::new();
+            put(
+                &mut e,
+                &mut puts,
+                u,
+                Attribute::ApiTokenSession,
+                s.tokens
+                    .iter()
+                    .filter(|t| match t {
+                        GV::ApiToken { id, .. } => ids.insert(*id),
+                        _ => false,
+                    })
+                    .cloned()
+                    .collect(),
+            );
+            out.push(("service", e));
+        }
+        for (i, g) in c.groups.iter().enumerate() {
+            let u = g_uuid(i);
+            let members: Vec<Uuid> = g.members.iter().filter(|m| (**m as usize) < c.persons.len()).map(|m| p_uuid(*m as usize)).collect();
+            let mut e = crate::pop::group(u, &format!("group{i}"), &members);
+            if let Some(d) = &g.desc {
+                put(&mut e, &mut puts, u, Attribute::Description, vec![GV::Utf8(d.clone())]);
+            }
+            if let Some((ase, pe, minlen, ct, ca, fb)) = &g.policy {
+                e.add_ava(Attribute::Class, EntryClass::AccountPolicy.to_value());
+                put(&mut e, &mut puts, u, Attribute::AuthSessionExpiry, vec![GV::Uint32(*ase)]);
+                put(&mut e, &mut puts, u, Attribute::PrivilegeExpiry, vec![GV::Uint32(*pe)]);
+                put(&mut e, &mut puts, u, Attribute::AuthPasswordMinimumLength, vec![GV::Uint32(*minlen)]);
+                put(&mut e, &mut puts, u, Attribute::CredentialTypeMinimum, vec![GV::CredType(*ct)]);
+                if let Some(mask) = ca {
+                    put(&mut e, &mut puts, u, Attribute::WebauthnAttestationCaList, vec![GV::AttCa { mask: *mask, aaguid: 1 }]);
+                }
+                put(&mut e, &mut puts, u, Attribute::AllowPrimaryCredFallback, vec![GV::Bool(*fb)]);
+            }
+            out.push(("group", e));
+        }
+        if let Some(o) = &c.oauth {
+            let u = o_uuid();
+            let mut e: crate::pop::NewEntry = kanidmd_lib::entry::Entry::new();
+            e.add_ava(Attribute::Class, EntryClass::Object.to_value());
+            e.add_ava(Attribute::Class, EntryClass::Account.to_value());
+            e.add_ava(Attribute::Class, EntryClass::OAuth2ResourceServer.to_value());
+            e.add_ava(Attribute::Class, EntryClass::OAuth2ResourceServerBasic.to_value());
+            e.add_ava(Attribute::Uuid, Value::Uuid(u));
+            e.add_ava(Attribute::Name, Value::new_iname("oauthclient"));
+            put(&mut e, &mut puts, u, Attribute::DisplayName, vec![GV::Utf8(o.display.clone())]);
+            put(&mut e, &mut puts, u, Attribute::OAuth2RsOriginLanding, vec![GV::Url(o.url, String::new())]);
+            if !c.groups.is_empty() {
+                // pop uuids are not `uuid_n`; build this value directly
+                if let Some(v) = Value::new_oauthscopemap(g_uuid(0), o.scopes.iter().cloned().collect()) {
+                    e.add_ava(Attribute::OAuth2RsScopeMap, v);
+                }
+                if let Some((name, claims, join)) = &o.claim {
+                    if let Some(v) = Value::new_oauthclaimmap(name.clone(), g_uuid(0), claims.iter().cloned().collect()) {
+                        e.add_ava(Attribute::OAuth2RsClaimMap, v);
+                        let _ = join;
+                    }
+                }
+            }
+            if let Some(img) = o.image {
+                put(&mut e, &mut puts, u, Attribute::Image, vec![GV::Image { name: "logo".into(), img }]);
+            }
+            if o.pkce_off {
+                put(&mut e, &mut puts, u, Attribute::OAuth2AllowInsecureClientDisablePkce, vec![GV::Bool(true)]);
+            }
+            out.push(("oauth2", e));
+        }
+        (out, puts)
+    }
+
+    /// Deep difference of two snapshots of the database (every attribute of every entry).
+    /// `only`: restrict to these attributes (replication carries replicated attributes only).
+    pub fn entries_diff(a: &[E], b: &[E], only: Option<&BTreeSet<Attribute>>, hist: &mut BTreeMap<String, u64>) -> Option<(String, String)> {
+        let bm: BTreeMap<Uuid, &E> = b.iter().map(|e| (e.get_uuid(), e)).collect();
+        if a.len() != b.len() {
+            let au: BTreeSet<Uuid> = a.iter().map(|e| e.get_uuid()).collect();
+            let bu: BTreeSet<Uuid> = bm.keys().copied().collect();
+            return Some((
+                "entry set differs".into(),
+                format!("only before: {:?}; only after: {:?}", au.difference(&bu).collect::<Vec<_>>(), bu.difference(&au).collect::<Vec<_>>()),
+            ));
+        }
+        for ea in a {
+            let Some(eb) = bm.get(&ea.get_uuid()) else {
+                return Some(("entry set differs".into(), format!("{} missing", ea.get_uuid())));
+            };
+            let names: BTreeSet<&Attribute> = ea.get_ava().keys().chain(eb.get_ava().keys()).collect();
+            for n in names {
+                if only.is_some_and(|o| !o.contains(n)) {
+                    continue;
+                }
+                // an empty value set still held in memory and an absent attribute are the same stored
+                // state (kanidm documents this quirk in ReplEntryV1::new)
+                fn nz(o: Option<&ValueSet>) -> Option<&ValueSet> {
+                    o.filter(|v| !v.is_empty())
+                }
+                match (nz(ea.get_ava_set(n)), nz(eb.get_ava_set(n))) {
+                    (Some(x), Some(y)) => {
+                        *hist.entry(val::syntax_name(x.syntax())).or_default() += 1;
+                        if let Err(d) = val::same(x, y) {
+                            return Some((format!("{:?} attribute differs", x.syntax()), format!("entry {} attr {n}: {d}", ea.get_uuid())));
+                        }
+                    }
+                    (None, None) => {}
+                    (x, y) => {
+                        return Some((
+                            "attribute presence differs".into(),
+                            format!("entry {} attr {n}: before {:?}, after {:?}", ea.get_uuid(), x.map(|v| v.len()), y.map(|v| v.len())),
+                        ))
+                    }
+                }
+            }
+        }
+        None
+    }
+
+    /// Model check of one snapshot: every attribute the model put must read back equal, and every
+    /// credential must behave as the model says.
+    pub fn model_check(log: &mut CaseLog, puts: &[Put], created: &BTreeSet<Uuid>, snap: &[E], leg: &str, only: Option<&BTreeSet<Attribute>>) {
+        let m: BTreeMap<Uuid, &E> = snap.iter().map(|e| (e.get_uuid(), e)).collect();
+        for p in puts {
+            if !created.contains(&p.uuid) || only.is_some_and(|o| !o.contains(&p.attr)) {
+                continue;
+            }
+            let Some(e) = m.get(&p.uuid) else {
+                log.fail(format!("created entry missing after {leg}"), format!("{}", p.uuid));
+                return;
+            };
+            // sessions are legitimately rewritten by the session-consistency plugin at create time
+            if p.attr == Attribute::UserAuthTokenSession || p.attr == Attribute::ApiTokenSession {
+                continue;
+            }
+            let Some(got) = e.get_ava_set(&p.attr) else {
+                log.fail(format!("{}: attribute lost after {leg}", p.g.kind()), format!("entry {} attr {}", p.uuid, p.attr));
+                return;
+            };
+            let before = val::behaviour(&p.vs, &p.g);
+            let after = val::behaviour(got, &p.g);
+            if let Some(d) = val::behaviour_diff(&before, &after) {
+                let mut kind = p.g.kind();
+                if let Some(GV::Cred { cred, .. }) = p.g.vals.first() {
+                    kind = format!("Cred[{}]", cred.pw.label());
+                }
+                log.fail(format!("{kind}: behaviour changed after {leg}"), format!("entry {} attr {}: {d}", p.uuid, p.attr));
+                return;
+            }
+            if let Err(d) = val::same(&p.vs, got) {
+                log.fail(format!("{}: value not equal after {leg}", p.g.kind()), format!("entry {} attr {}: {d}", p.uuid, p.attr));
+                return;
+            }
+        }
+    }
+
+    async fn snapshot(qs: &QueryServer) -> Vec<E> {
+        let mut r = qs.read().await.expect("read");
+        let mut v = dump::all_entries(&mut r).expect("entries");
+        v.sort_by_key(|e| e.get_uuid());
+        v
+    }
+
+    async fn replicated_attrs(qs: &QueryServer) -> BTreeSet<Attribute> {
+        let r = qs.read().await.expect("read");
+        let s = r.get_schema();
+        s.get_attributes().keys().filter(|a| s.is_replicated(a)).cloned().collect()
+    }
+
+    pub fn run(rt: &tokio::runtime::Runtime, c: &Case) -> Outcome {
+        let mut log = CaseLog::new();
+        let mut hist: BTreeMap<String, u64> = BTreeMap::new();
+        rt.block_on(async {
+            let (entries, puts) = build(c);
+            // B is refreshed from A *before* the population exists, so that the population travels incrementally
+            let mut cl = Cluster::new(2).await;
+            let mut created: BTreeSet<Uuid> = BTreeSet::new();
+            for (kind, e) in entries {
+                let u = e.get_uuid().expect("uuid");
+                let now = cl.nodes[0].now();
+                let mut w = cl.nodes[0].qs.write(now).await.expect("write");
+                match w.internal_create(vec![e]).and_then(|_| w.commit()) {
+                    Ok(()) => {
+                        created.insert(u);
+                        log.class(format!("e2e:created:{kind}"));
+                        cl.nodes[0].clock += 1;
+                    }
+                    Err(err) => {
+                        log.class(format!("e2e:refused:{kind}:{err:?}").chars().take(80).collect::<String>());
+                    }
+                }
+            }
+            if created.is_empty() {
+                return;
+            }
+            let has_cred = puts.iter().any(|p| created.contains(&p.uuid) && matches!(p.g.vals.first(), Some(GV::Cred { .. })));
+            if has_cred {
+                log.nontrivial();
+            }
+            for p in &puts {
+                if created.contains(&p.uuid) {
+                    if let Some(GV::Cred { cred, .. }) = p.g.vals.first() {
+                        log.class(format!("e2e:{}", cred.pw.label()));
+                    }
+                }
+            }
+            // --- leg: create -> new read txn
+            let e0 = snapshot(&cl.nodes[0].qs).await;
+            model_check(&mut log, &puts, &created, &e0, "server create + read", None);
+            if log.failed() {
+                return;
+            }
+            // --- leg: cold caches
+            {
+                let now = cl.nodes[0].now();
+                let mut w = cl.nodes[0].qs.write(now).await.expect("write");
+                w.clear_cache().expect("clear cache");
+                w.commit().expect("commit");
+                cl.nodes[0].clock += 1;
+            }
+            let e1 = snapshot(&cl.nodes[0].qs).await;
+            if let Some((sig, d)) = entries_diff(&e0, &e1, None, &mut hist) {
+                log.fail(format!("{sig} after cache clear"), d);
+                return;
+            }
+            model_check(&mut log, &puts, &created, &e1, "cache clear", None);
+            if log.failed() {
+                return;
+            }
+            // --- leg: backup -> restore into a fresh backend -> started server
+            let data = {
+                let mut r = cl.nodes[0].qs.read().await.expect("read");
+                bak::backup(&mut r, c.gzip).expect("backup")
+            };
+            let now = cl.nodes[0].now();
+            match bak::restore_and_start(&data, c.gzip, now).await {
+                Ok(qs2) => {
+                    let e2 = snapshot(&qs2).await;
+                    model_check(&mut log, &puts, &created, &e2, "backup + restore", None);
+                    if log.failed() {
+                        return;
+                    }
+                    // the population entries must be identical attribute for attribute
+                    let pick = |v: &[E]| -> Vec<E> { v.iter().filter(|e| created.contains(&e.get_uuid())).cloned().collect() };
+                    if let Some((sig, d)) = entries_diff(&pick(&e1), &pick(&e2), None, &mut hist) {
+                        log.fail(format!("{sig} after backup + restore"), d);
+                        return;
+                    }
+                    log.class("e2e:restored");
+                    log.class(if c.gzip { "e2e:gzip" } else { "e2e:plain" });
+                }
+                Err(err) => {
+                    log.fail("restore of an own backup refused", format!("{err:?}"));
+                    return;
+                }
+            }
+            // --- leg: incremental replication A -> B
+            let repl = replicated_attrs(&cl.nodes[0].qs).await;
+            match cl.replicate(0, 1).await {
+                ReplResult::Applied => {
+                    let e3 = snapshot(&cl.nodes[1].qs).await;
+                    model_check(&mut log, &puts, &created, &e3, "incremental replication", Some(&repl));
+                    if log.failed() {
+                        return;
+                    }
+                    let pick = |v: &[E]| -> Vec<E> { v.iter().filter(|e| created.contains(&e.get_uuid())).cloned().collect() };
+                    if let Some((sig, d)) = entries_diff(&pick(&e1), &pick(&e3), Some(&repl), &mut hist) {
+                        log.fail(format!("{sig} after incremental replication"), d);
+                        return;
+                    }
+                    log.class("e2e:incremental-applied");
+                }
+                other => {
+                    log.fail("incremental replication of a fresh population not applied", format!("{other:?}"));
+                    return;
+                }
+            }
+            // --- leg: refresh A -> new node C
+            let mut c_node = Node::new().await;
+            {
+                let ctx = {
+                    let mut r = cl.nodes[0].qs.read().await.expect("read");
+                    r.supplier_provide_refresh().expect("refresh ctx")
+                };
+                let now = c_node.now();
+                let mut w = c_node.qs.write(now).await.expect("write");
+                match w.consumer_apply_refresh(ctx).and_then(|_| w.commit()) {
+                    Ok(()) => {
+                        c_node.clock += 1;
+                    }
+                    Err(err) => {
+                        log.fail("refresh refused", format!("{err:?}"));
+                        return;
+                    }
+                }
+            }
+            let e4 = snapshot(&c_node.qs).await;
+            model_check(&mut log, &puts, &created, &e4, "replication refresh", Some(&repl));
+            if log.failed() {
+                return;
+            }
+            let pick = |v: &[E]| -> Vec<E> { v.iter().filter(|e| created.contains(&e.get_uuid())).cloned().collect() };
+            if let Some((sig, d)) = entries_diff(&pick(&e1), &pick(&e4), Some(&repl), &mut hist) {
+                log.fail(format!("{sig} after replication refresh"), d);
+                return;
+            }
+            log.class("e2e:refreshed");
+        });
+        for (k, _) in hist {
+            log.class(format!("e2e-syntax:{k}"));
+        }
+        log.finish()
+    }
+}
+
+// =================================================================================================
+/// C03: from-scratch reference index and name tables, compared with the raw tables.
+pub mod idx {
+    use crate::dump::{self, Status};
+    use crate::inv::E;
+    use kanidmd_lib::be::BackendTransaction;
+    use kanidmd_lib::prelude::*;
+    use kanidmd_lib::value::IndexType;
+    use kanidmd_lib::verif_hooks::storage as hk;
+    use std::collections::{BTreeMap, BTreeSet};
+
+    pub type Key = (Attribute, IndexType);
+    pub type IndexModel = BTreeMap<Key, BTreeMap<String, BTreeSet<u64>>>;
+
+    pub fn table_name(k: &Key) -> String {
+        format!("idx_{}_{}", k.1.as_idx_str(), k.0.as_str())
+    }
+
+    /// The index a from-scratch build over `entries` would contain for the index keys `meta`.
+    /// Every stored entry counts (recycled entries and tombstones are indexed for what they hold).
+    pub fn reference_index(meta: &[Key], entries: &[E]) -> IndexModel {
+        let mut m: IndexModel = BTreeMap::new();
+        for k in meta {
+            let t = m.entry(k.clone()).or_default();
+            for e in entries {
+                let Some(vs) = e.get_ava_set(&k.0) else { continue };
+                if vs.is_empty() {
+                    continue;
+                }
+                let keys: Vec<String> = match k.1 {
+                    IndexType::Equality => vs.generate_idx_eq_keys(),
+                    IndexType::Presence => vec!["_".to_string()],
+                    IndexType::SubString => vs.generate_idx_sub_keys(),
+                    IndexType::Ordering => vs.generate_idx_ord_keys(),
+                };
+                for key in keys {
+                    t.entry(key).or_default().insert(e.get_id());
+                }
+            }
+        }
+        m
+    }
+
+    #[derive(Debug, Default, PartialEq, Eq)]
+    pub struct NameModel {
+        pub name2uuid: BTreeMap<String, Uuid>,
+        /// names claimed by more than one live entry (expectation undefined; skipped)
+        pub ambiguous: BTreeSet<String>,
+        pub externalid2uuid: BTreeMap<String, Uuid>,
+        pub uuid2spn: BTreeMap<Uuid, String>,
+        pub uuid2rdn: BTreeMap<Uuid, String>,
+    }
+
+    fn single_proto(e: &E, a: Attribute) -> Option<String> {
+        let vs = e.get_ava_set(a)?;
+        if vs.len() != 1 {
+            return None;
+        }
+        vs.to_proto_string_clone_iter().next()
+    }
+
+    /// Rendering used to compare uuid2spn values (Spn / Iname / Uuid) without kanidm's
+    /// cross-type `PartialEq` (which debug-asserts).
+    pub fn spn_value_repr(v: &Value) -> String {
+        match v {
+            Value::Spn(n, d) => format!("spn:{n}@{d}"),
+            Value::Iname(n) => format!("iname:{n}"),
+            Value::Uuid(u) => format!("uuid:{u}"),
+            other => format!("other:{other:?}"),
+        }
+    }
+
+    /// Name tables rebuilt from the live (neither recycled nor tombstone) entries.
+    pub fn reference_names(entries: &[E]) -> NameModel {
+        let mut m = NameModel::default();
+        for e in entries {
+            if matches!(dump::status_of(e), Status::Recycled | Status::Tombstone) || e.has_class(&EntryClass::Recycled) {
+                continue;
+            }
+            let u = e.get_uuid();
+            for a in [Attribute::Spn, Attribute::Name, Attribute::GidNumber] {
+                if let Some(vs) = e.get_ava_set(a) {
+                    for s in vs.to_proto_string_clone_iter() {
+                        match m.name2uuid.get(&s) {
+                            Some(prev) if *prev != u => {
+                                m.ambiguous.insert(s);
+                            }
+                            _ => {
+                                m.name2uuid.insert(s, u);
+                            }
+                        }
+                    }
+                }
+            }
+            if let Some(x) = single_proto(e, Attribute::SyncExternalId) {
+                m.externalid2uuid.insert(x, u);
+            }
+            let spn = e.get_ava_set(Attribute::Spn).filter(|v| v.len() == 1).and_then(|v| v.to_value_iter().next());
+            let name = e.get_ava_set(Attribute::Name).filter(|v| v.len() == 1).and_then(|v| v.to_value_iter().next());
+            let sv = spn.clone().or(name.clone()).unwrap_or(Value::Uuid(u));
+            m.uuid2spn.insert(u, spn_value_repr(&sv));
+            let rdn = match (single_proto(e, Attribute::Spn), single_proto(e, Attribute::Name)) {
+                (Some(s), _) => format!("spn={s}"),
+                (None, Some(n)) => format!("name={n}"),
+                (None, None) => format!("uuid={}", u.as_hyphenated()),
+            };
+            m.uuid2rdn.insert(u, rdn);
+        }
+        for a in &m.ambiguous {
+            m.name2uuid.remove(a);
+        }
+        m
+    }
+
+    /// Raw content of all index tables named by `meta`: table -> key -> ids (empty id lists dropped
+    /// but counted).
+    pub struct Raw {
+        pub tables: BTreeSet<String>,
+        pub content: BTreeMap<Key, BTreeMap<String, BTreeSet<u64>>>,
+        pub empty_keys: usize,
+    }
+
+    pub fn raw_index(r: &mut QueryServerReadTransaction<'_>, meta: &[Key]) -> Result<Raw, String> {
+        let be = r.get_be_txn();
+        let tables: BTreeSet<String> = be.list_indexes().map_err(|e| format!("list_indexes {e:?}"))?.into_iter().collect();
+        let mut content = BTreeMap::new();
+        let mut empty_keys = 0;
+        for k in meta {
+            let name = table_name(k);
+            if !tables.contains(&name) {
+                continue;
+            }
+            let rows = be.list_index_content(&name).map_err(|e| format!("list_index_content {name} {e:?}"))?;
+            let mut t: BTreeMap<String, BTreeSet<u64>> = BTreeMap::new();
+            for (key, idl) in rows {
+                let ids: BTreeSet<u64> = (&idl).into_iter().collect();
+                if ids.is_empty() {
+                    empty_keys += 1;
+                } else {
+                    t.insert(key, ids);
+                }
+            }
+            content.insert(k.clone(), t);
+        }
+        Ok(Raw { tables, content, empty_keys })
+    }
+
+    pub const SIG_TABLE_MISSING: &str = "index table of a live index key is missing";
+    pub const SIG_IDX_MISSING: &str = "index lacks an id that a stored entry produces";
+    pub const SIG_IDX_STALE: &str = "index holds an id that no stored entry produces";
+    pub const SIG_IDX_CACHE: &str = "index as seen through the cache differs from the stored table";
+    pub const SIG_N2U: &str = "name2uuid table differs from the live entries";
+    pub const SIG_E2U: &str = "externalid2uuid table differs from the live entries";
+    pub const SIG_U2S: &str = "uuid2spn table differs from the live entries";
+    pub const SIG_U2R: &str = "uuid2rdn table differs from the live entries";
+    pub const SIG_LOOKUP: &str = "name lookup disagrees with a scan of the entries";
+    pub const SIG_VERIFY: &str = "server verify() reports inconsistencies";
+    pub const SIG_ALLIDS: &str = "stored entry ids differ from the entries a full search returns";
+
+    fn text(v: &[u8]) -> String {
+        String::from_utf8_lossy(v).to_string()
+    }
+
+    pub struct Stats {
+        pub keys: usize,
+        pub ids: usize,
+        pub names: usize,
+        /// verify() findings that are not about storage / indexes (variant names)
+        pub other_verify: BTreeSet<String>,
+    }
+
+    /// Complete comparison for one committed state. Returns the first discrepancy.
+    /// `absent_probe`: names that must resolve to nothing unless a live entry carries them.
+    pub fn check_state(r: &mut QueryServerReadTransaction<'_>, entries: &[E], absent_probe: &[String]) -> Result<Stats, (&'static str, String)> {
+        let meta: Vec<Key> = hk::be::idxmeta_keys(r.get_be_txn());
+        let want = reference_index(&meta, entries);
+        let raw = raw_index(r, &meta).map_err(|e| ("harness: raw index read failed", e))?;
+        let mut stats = Stats { keys: 0, ids: 0, names: 0, other_verify: BTreeSet::new() };
+        for k in &meta {
+            let Some(have) = raw.content.get(k) else {
+                return Err((SIG_TABLE_MISSING, format!("{} (index key {:?})", table_name(k), k)));
+            };
+            let w = want.get(k).cloned().unwrap_or_default();
+            for (key, ids) in &w {
+                stats.keys += 1;
+                stats.ids += ids.len();
+                let h = have.get(key).cloned().unwrap_or_default();
+                if let Some(m) = ids.difference(&h).next() {
+                    return Err((SIG_IDX_MISSING, format!("{} key {key:?}: id {m} expected (entry {}), table has {h:?}", table_name(k), who(entries, *m))));
+                }
+                if let Some(s) = h.difference(ids).next() {
+                    return Err((SIG_IDX_STALE, format!("{} key {key:?}: id {s} ({}) is listed but the entry does not produce this key; expected {ids:?}", table_name(k), who(entries, *s))));
+                }
+            }
+            for (key, h) in have {
+                if !w.contains_key(key) {
+                    let s = h.iter().next().copied().unwrap_or(0);
+                    return Err((SIG_IDX_STALE, format!("{} key {key:?}: ids {h:?} listed ({}) but no stored entry produces this key", table_name(k), who(entries, s))));
+                }
+            }
+        }
+        // the same through the idl cache, for every key of either side
+        {
+            let be = r.get_be_txn();
+            for k in &meta {
+                let w = want.get(k).cloned().unwrap_or_default();
+                let have = raw.content.get(k).cloned().unwrap_or_default();
+                let keys: BTreeSet<&String> = w.keys().chain(have.keys()).collect();
+                for key in keys {
+                    let got: BTreeSet<u64> = hk::be::cached_idl(be, &k.0, k.1, key)
+                        .map_err(|e| ("harness: cached idl read failed", format!("{e:?}")))?
+                        .map(|v| v.into_iter().collect())
+                        .unwrap_or_default();
+                    let exp = w.get(key).cloned().unwrap_or_default();
+                    if got != exp {
+                        return Err((SIG_IDX_CACHE, format!("{} key {key:?}: through the cache {got:?}, from the entries {exp:?}", table_name(k))));
+                    }
+                }
+            }
+        }
+        // name tables, raw
+        let names = reference_names(entries);
+        stats.names = names.name2uuid.len();
+        {
+            let be = r.get_be_txn();
+            let raw_n2u: BTreeMap<String, String> = hk::be::raw_table(be, "idx_name2uuid", "name", "uuid").map_err(|e| ("harness: raw table", format!("{e:?}")))?.into_iter().map(|(k, v)| (k, text(&v))).collect();
+            for (n, u) in &names.name2uuid {
+                match raw_n2u.get(n) {
+                    Some(x) if *x == u.as_hyphenated().to_string() => {}
+                    other => return Err((SIG_N2U, format!("name {n:?} should map to {u}, table has {other:?}"))),
+                }
+            }
+            for (n, x) in &raw_n2u {
+                if !names.name2uuid.contains_key(n) && !names.ambiguous.contains(n) {
+                    return Err((SIG_N2U, format!("stale row: name {n:?} -> {x} but no live entry carries that name")));
+                }
+            }
+            let raw_e2u: BTreeMap<String, String> = hk::be::raw_table(be, "idx_externalid2uuid", "eid", "uuid").map_err(|e| ("harness: raw table", format!("{e:?}")))?.into_iter().map(|(k, v)| (k, text(&v))).collect();
+            let want_e2u: BTreeMap<String, String> = names.externalid2uuid.iter().map(|(k, v)| (k.clone(), v.as_hyphenated().to_string())).collect();
+            if raw_e2u != want_e2u {
+                return Err((SIG_E2U, format!("table {raw_e2u:?}, from the entries {want_e2u:?}")));
+            }
+            let raw_u2s: BTreeMap<String, String> = hk::be::raw_table(be, "idx_uuid2spn", "uuid", "spn")
+                .map_err(|e| ("harness: raw table", format!("{e:?}")))?
+                .into_iter()
+                .map(|(k, v)| (k, hk::be::decode_spn(&v).map(|v| spn_value_repr(&v)).unwrap_or_else(|| format!("undecodable:{}", text(&v)))))
+                .collect();
+            let want_u2s: BTreeMap<String, String> = names.uuid2spn.iter().map(|(k, v)| (k.as_hyphenated().to_string(), v.clone())).collect();
+            if raw_u2s != want_u2s {
+                let d = first_diff(&raw_u2s, &want_u2s);
+                return Err((SIG_U2S, d));
+            }
+            let raw_u2r: BTreeMap<String, String> = hk::be::raw_table(be, "idx_uuid2rdn", "uuid", "rdn").map_err(|e| ("harness: raw table", format!("{e:?}")))?.into_iter().map(|(k, v)| (k, text(&v))).collect();
+            let want_u2r: BTreeMap<String, String> = names.uuid2rdn.iter().map(|(k, v)| (k.as_hyphenated().to_string(), v.clone())).collect();
+            if raw_u2r != want_u2r {
+                return Err((SIG_U2R, first_diff(&raw_u2r, &want_u2r)));
+            }
+        }
+        // lookups as the server resolves them (through the name cache) against the scan
+        for (n, u) in &names.name2uuid {
+            match r.name_to_uuid(n) {
+                Ok(x) if x == *u => {}
+                other => return Err((SIG_LOOKUP, format!("name_to_uuid({n:?}) = {other:?}, scan says {u}"))),
+            }
+        }
+        for n in absent_probe {
+            if names.name2uuid.contains_key(n) || names.ambiguous.contains(n) {
+                continue;
+            }
+            match r.get_be_txn().name2uuid(n) {
+                Ok(None) => {}
+                other => return Err((SIG_LOOKUP, format!("name2uuid({n:?}) = {other:?} but no live entry carries that name"))),
+            }
+        }
+        for e in entries {
+            let u = e.get_uuid();
+            let be = r.get_be_txn();
+            let got_s = be.uuid2spn(u).map_err(|e| ("harness: uuid2spn failed", format!("{e:?}")))?.map(|v| spn_value_repr(&v));
+            if got_s.as_ref() != names.uuid2spn.get(&u) {
+                return Err((SIG_LOOKUP, format!("uuid2spn({u}) = {got_s:?}, scan says {:?}", names.uuid2spn.get(&u))));
+            }
+            let got_r = be.uuid2rdn(u).map_err(|e| ("harness: uuid2rdn failed", format!("{e:?}")))?;
+            if got_r.as_ref() != names.uuid2rdn.get(&u) {
+                return Err((SIG_LOOKUP, format!("uuid2rdn({u}) = {got_r:?}, scan says {:?}", names.uuid2rdn.get(&u))));
+            }
+        }
+        for (x, u) in &names.externalid2uuid {
+            match r.sync_external_id_to_uuid(x) {
+                Ok(Some(g)) if g == *u => {}
+                other => return Err((SIG_LOOKUP, format!("sync_external_id_to_uuid({x:?}) = {other:?}, scan says {u}"))),
+            }
+        }
+        // verify(): only the storage / index findings belong to this property; what the plugins and
+        // the change-state checker say (memberof, refint, change state, RUV ...) belongs to others
+        // Stored ids vs. the ids a full search returns (what verify()'s allids comparison is about),
+        // checked here directly: idlset's `PartialEq` debug-asserts equality, so with debug assertions
+        // on, a mismatch inside verify() (allids or RUV) surfaces as a panic and cannot be told apart.
+        {
+            let raw_ids: BTreeSet<u64> = r.get_be_txn().list_id2entry().map_err(|e| ("harness: list_id2entry failed", format!("{e:?}")))?.into_iter().map(|(id, _)| id).collect();
+            let ent_ids: BTreeSet<u64> = entries.iter().map(|e| e.get_id()).collect();
+            if raw_ids != ent_ids {
+                return Err((
+                    SIG_ALLIDS,
+                    format!("only in id2entry: {:?}; only returned by the search: {:?}", raw_ids.difference(&ent_ids).collect::<Vec<_>>(), ent_ids.difference(&raw_ids).collect::<Vec<_>>()),
+                ));
+            }
+        }
+        let v = match std::panic::catch_unwind(std::panic::AssertUnwindSafe(|| hk::qs_verify(r))) {
+            Ok(v) => v,
+            // ids and indexes were just compared exhaustively above, so the id-list mismatch that
+            // fired inside verify() is the RUV's (replication metadata: not this property's subject)
+            Err(_) => vec!["RuvIdListMismatchPanic(verify() hit idlset's debug assertion)".to_string()],
+        };
+        const MINE: [&str; 7] = ["BackendIndexSync", "BackendAllIdsSync", "SqliteIntegrityFailure", "UuidIndexCorrupt", "EntryUuidCorrupt", "Unknown", "QueryServerSearchFailure"];
+        let (mine, other): (Vec<String>, Vec<String>) = v.into_iter().partition(|e| MINE.iter().any(|m| e.starts_with(m)));
+        if !mine.is_empty() {
+            return Err((SIG_VERIFY, format!("{mine:?}")));
+        }
+        stats.other_verify = other.into_iter().map(|e| e.split('(').next().unwrap_or("").to_string()).collect();
+        Ok(stats)
+    }
+
+    fn who(entries: &[E], id: u64) -> String {
+        entries
+            .iter()
+            .find(|e| e.get_id() == id)
+            .map(|e| format!("{} {:?} {:?}", e.get_uuid(), dump::status_of(e), dump::proto_values(e, Attribute::Name)))
+            .unwrap_or_else(|| "no stored entry has this id".into())
+    }
+
+    fn first_diff(have: &BTreeMap<String, String>, want: &BTreeMap<String, String>) -> String {
+        let keys: BTreeSet<&String> = have.keys().chain(want.keys()).collect();
+        for k in keys {
+            if have.get(k) != want.get(k) {
+                return format!("{k}: table has {:?}, from the entries {:?}", have.get(k), want.get(k));
+            }
+        }
+        String::new()
+    }
+
+    /// Canonical text of every index table and name table (for the reindex metamorphic check).
+    pub fn tables_fingerprint(r: &mut QueryServerReadTransaction<'_>) -> Result<BTreeMap<String, BTreeMap<String, String>>, String> {
+        let meta: Vec<Key> = hk::be::idxmeta_keys(r.get_be_txn());
+        let raw = raw_index(r, &meta)?;
+        let mut out: BTreeMap<String, BTreeMap<String, String>> = BTreeMap::new();
+        for (k, t) in raw.content {
+            out.insert(table_name(&k), t.into_iter().map(|(key, ids)| (key, format!("{ids:?}"))).collect());
+        }
+        let be = r.get_be_txn();
+        for (t, kc, vc) in [("idx_name2uuid", "name", "uuid"), ("idx_externalid2uuid", "eid", "uuid"), ("idx_uuid2spn", "uuid", "spn"), ("idx_uuid2rdn", "uuid", "rdn")] {
+            let rows = hk::be::raw_table(be, t, kc, vc).map_err(|e| format!("{e:?}"))?;
+            out.insert(t.to_string(), rows.into_iter().map(|(k, v)| (k, text(&v))).collect());
+        }
+        Ok(out)
+    }
+}
